@@ -1,16 +1,21 @@
 /-
   C02 — parsing recovers the structure a well-formed document was written with.
 
-  `C02_full` is the full statement over the document grammar of `Pylx/Doc.lean` (every construct, every context); it is
-  FALSE as stated (`C02_full_false`: `Doc.WF` admits a control word without post-space followed by a whitespace item).
-  `C02_core` proves the round trip for the fragment `Doc.Core` (a decidable predicate on context and derivation):
-  text of letters / digits / `.,;:`, whitespace items (fewer than two newlines) anywhere, brace groups, comments ending
-  in a newline plus indentation (and the whitespace behind it), calls of control-word macros whose signature (looked up
-  in the context) is made of `m` / `o` / `s` slots written as brace groups / bracket groups / stars or left out (any
-  argument mode deltas), inline and display math with the four delimiter pairs, specials without arguments; arbitrary
-  nesting; every context in which no specials string starts with a text character, `*`, `[` or `]` — for every
-  derivation of the fragment (unbounded depth and length) and every amount of fuel that is large enough
-  (`C02_core_run`), in particular the fuel `parseTop` uses (`C02_core`, `C02_core_ok`).
+  `C02_full` is the full statement over the document grammar of `Pylx/Doc.lean` (every construct, every context), with
+  the repaired separation discipline `Doc.WF` (a control word without written argument and with an empty `post` is not
+  followed by whitespace other than a paragraph break; the earlier counterexample `\a x` is excluded, see `cexDoc`).
+  It is kept as a proposition.  `C02_core` proves the round trip for the fragment `Doc.Core` (a decidable predicate on
+  context and derivation): text of letters / digits / `.,;:`, whitespace items, paragraph breaks (as the `\n\n` specials
+  when the context declares them, as plain text otherwise; also directly behind a control word or a comment line), brace
+  groups, comments, calls of control-word and control-symbol macros and environments (normal and math bodies, unknown
+  names through the context's fallbacks) whose signature (looked up in the context) is made of `m` / `o` / `s` / `t<c>` /
+  `r<c1c2>` / `d<c1c2>` slots written as brace groups or single text characters / bracket groups / stars / markers /
+  delimited groups or left out (any argument mode deltas), inline and display math with the four delimiter pairs,
+  specials without arguments, `\verb`; arbitrary nesting; every context in which no specials string starts with a text
+  character, `*`, `[` or `]` — for every derivation of the fragment (unbounded depth and length) and every amount of fuel
+  that is large enough (`C02_core_run`), in particular the fuel `parseTop` uses (`C02_core`, `C02_core_ok`).
+  Not covered: verbatim environments, `v` arguments, specials with arguments, absent optional arguments directly in front
+  of a paragraph break / `\begin` / `\end`.
 
   Architecture: `Ev` (result for all large fuel) + `run_mono`; `items_reach` / `args_reach` = prefix lemma over every
   collector state, by mutual recursion on the derivation, one lemma per construct (`step_*`, `*_runs`).
@@ -20,6 +25,9 @@ import PylxProofs.C01
 namespace Pylx
 namespace C02
 open Doc
+
+theorem pendSh_ne {w : Str} (h : w.isEmpty = false) : pendSh w = [.chars w] := by
+  unfold pendSh; rw [h]; rfl
 
 section constructs
 variable {env : Env} {keys : List Str}
@@ -52,29 +60,29 @@ theorem ReachesW.nil {L : PSFields} {stop : StopTok} {child : ChildPS} {st : Loo
   ⟨[], 0, w, Reaches.refl env L stop child st, hd, hw, hn, by rw [List.nil_append, List.append_nil]⟩
 
 section text
-variable {m br : Bool} {md : Option Str} {stop : StopTok} {child : ChildPS}
+variable {m : Bool} {br : Xp} {md : Option Str} {stop : StopTok} {child : ChildPS}
 
 /-- one text character behind whitespace -/
-theorem reach_char (htol : env.tol = false) (hn : NormOk m md) (hk : keysCore keys = true) {st : LoopSt} {w : Str} {c : Char}
+theorem reach_char (htol : env.tol = false) (hn : NormOk m md) (hx : XpOk br) (hk : keysCore keys = true) {st : LoopSt} {w : Str} {c : Char}
     {rest : Str} (hd : env.s.drop st.pos = w ++ c :: rest) (hw : isWs w = true) (hnl : countNl w < 2) (hc : isTextChar c = true) :
     Reaches env (stdF keys m md true br) stop child st (pendSh w ++ pendSh [c]) (w.length + 1) := by
   have hps := psStd_std keys m md true br hn
   have hpk : peekImpl (mkPS (stdF keys m md true br)) env.s st.pos = _ :=
-    (peekImpl_ws hd hw hnl (textChar_ne hc).2.2.2.2.2).trans (peekAtChar_text hps hk (drop_add_of_drop hd) hc)
+    (peekImpl_ws hd hw hnl (textChar_ne hc).2.2.2.2.2).trans (peekAtChar_text hps hx hk (drop_add_of_drop hd) hc)
   have := reach_charTok (stop := stop) (child := child) htol hpk rfl (by show st.pos ≤ st.pos + w.length + 1; omega)
   have e : st.pos + w.length + 1 - st.pos = w.length + 1 := by omega
   simp only [e] at this
   exact this
 
 /-- a run of text characters becomes pending characters -/
-theorem reach_letters (htol : env.tol = false) (hn : NormOk m md) (hk : keysCore keys = true) :
+theorem reach_letters (htol : env.tol = false) (hn : NormOk m md) (hx : XpOk br) (hk : keysCore keys = true) :
     ∀ (t : Str) (st : LoopSt) (rest : Str), t.all isTextChar = true → env.s.drop st.pos = t ++ rest →
       Reaches env (stdF keys m md true br) stop child st (pendSh t) t.length
   | [], st, _, _, _ => Reaches.refl env _ stop child st
   | c :: t, st, rest, hall, hd => by
     simp only [List.all_cons, Bool.and_eq_true] at hall
-    have h1 := reach_char (br := br) (stop := stop) (child := child) (w := []) htol hn hk (st := st) (by simpa using hd) rfl (by decide) hall.1
-    have h2 := Reaches.trans h1 (fun st1 hp => reach_letters htol hn hk t st1 rest hall.2 (by
+    have h1 := reach_char (br := br) (stop := stop) (child := child) (w := []) htol hn hx hk (st := st) (by simpa using hd) rfl (by decide) hall.1
+    have h2 := Reaches.trans h1 (fun st1 hp => reach_letters htol hn hx hk t st1 rest hall.2 (by
       rw [hp]; exact drop_succ_of_drop (by simpa using hd)))
     have e : ([] : Str).length + 1 + t.length = (c :: t).length := by simp; omega
     rw [e] at h2
@@ -84,7 +92,7 @@ theorem reach_letters (htol : env.tol = false) (hn : NormOk m md) (hk : keysCore
     | cons d t => rfl
 
 /-- a text item behind whitespace -/
-theorem reach_text (htol : env.tol = false) (hn : NormOk m md) (hk : keysCore keys = true) {st : LoopSt} {w t rest : Str}
+theorem reach_text (htol : env.tol = false) (hn : NormOk m md) (hx : XpOk br) (hk : keysCore keys = true) {st : LoopSt} {w t rest : Str}
     (hd : env.s.drop st.pos = w ++ (t ++ rest)) (hw : isWs w = true) (hnl : countNl w < 2) (hne : t ≠ [])
     (hall : t.all isTextChar = true) :
     Reaches env (stdF keys m md true br) stop child st (pendSh w ++ [.chars t]) (w.length + t.length) := by
@@ -92,8 +100,8 @@ theorem reach_text (htol : env.tol = false) (hn : NormOk m md) (hk : keysCore ke
   | nil => exact absurd rfl hne
   | cons c t =>
     simp only [List.all_cons, Bool.and_eq_true] at hall
-    have h1 := reach_char (br := br) (stop := stop) (child := child) htol hn hk (st := st) (by simpa using hd) hw hnl hall.1
-    have h2 := Reaches.trans h1 (fun st1 hp => reach_letters (br := br) htol hn hk t st1 rest hall.2 (by
+    have h1 := reach_char (br := br) (stop := stop) (child := child) htol hn hx hk (st := st) (by simpa using hd) hw hnl hall.1
+    have h2 := Reaches.trans h1 (fun st1 hp => reach_letters (br := br) htol hn hx hk t st1 rest hall.2 (by
       rw [hp, ← Nat.add_assoc]
       exact drop_succ_of_drop (drop_add_of_drop (by simpa using hd))))
     have e : w.length + 1 + t.length = w.length + (c :: t).length := by simp; omega
@@ -113,10 +121,18 @@ theorem child_group (o : Str) (f : PSFields) (t : Token) : (ChildPS.group o f f)
   unfold ChildPS.get
   simp
 
-theorem child_br (g K : PSFields) (t : Token) (h : t.arg ≠ ['[']) : (ChildPS.group ['['] g K).get g t = K := by
-  show (if (t.kind == TokKind.braceOpen && t.arg == ['[']) = true then g else K) = K
-  have : (t.arg == ['[']) = false := by simpa using h
-  rw [this, Bool.and_false]
+theorem child_br (o : Char) (g K : PSFields) (t : Token) (ho : o ≠ '{') (h : t.kind = .braceOpen → t.arg = ['{']) :
+    (ChildPS.group [o] g K).get g t = K := by
+  show (if (t.kind == TokKind.braceOpen && t.arg == [o]) = true then g else K) = K
+  have : (t.kind == TokKind.braceOpen && t.arg == [o]) = false := by
+    cases hk : (t.kind == TokKind.braceOpen) with
+    | false => rfl
+    | true =>
+      have hk' : t.kind = .braceOpen := by
+        revert hk; cases t.kind <;> intro hk <;> first | rfl | cases hk
+      rw [h hk']
+      simp [Ne.symm ho]
+  rw [this]
   rfl
 
 theorem stop_brace_math (c : Str) (t : Token) (h : t.kind = .mathInline ∨ t.kind = .mathDisplay) :
@@ -169,7 +185,9 @@ theorem core_head_not_dollar (ctx : Ctx) (after : Str) : ∀ (b : List Item), co
   | .M name post args :: tl, _, rest, _ => by simp [unparseItems, headIs]
   | .F k b :: tl, hc, rest, _ => by simp [coreItems] at hc
   | .P _ :: _, hc, _, _ => by simp [coreItems] at hc
-  | .E _ _ _ :: _, hc, _, _ => by simp [coreItems] at hc
+  | .E _ _ _ :: _, _, rest, _ => by
+    simp only [unparseItems, List.append_assoc, beginStr_append, headIs]
+    rfl
   | .S name args :: tl, hc, rest, _ => by
     simp only [coreItems, Bool.and_eq_true] at hc
     cases name with
@@ -177,7 +195,9 @@ theorem core_head_not_dollar (ctx : Ctx) (after : Str) : ∀ (b : List Item), co
     | cons c name' =>
       have := (specialsHead_ne (c := c) (by simpa [headIs] using hc.1.1.1.2)).2.2.2.2.2.1
       simp [unparseItems, headIs, this]
-  | .V _ _ :: _, hc, _, _ => by simp [coreItems] at hc
+  | .V _ _ :: _, _, rest, _ => by
+    simp only [unparseItems]
+    rfl
   | .VE _ _ _ _ :: _, hc, _, _ => by simp [coreItems] at hc
 
 /-! ### one lemma per construct (the recursive parts are hypotheses) -/
@@ -195,7 +215,7 @@ theorem group_node (htol : env.tol = false) (hn : NormOk m md) {q : Nat} {X Y : 
       shapeOf nd = .group ['{'] ['}'] (some (normList trb)) := by
   obtain ⟨tr, n, w', hreach, hdrop, hw', hn', hm⟩ := hbody
   have hdrop' : env.s.drop (q + 1 + n) = w' ++ '}' :: Y := hdrop
-  have hps := psStd_std keys m md true false hn
+  have hps := psStd_std keys m md true none hn
   have hpkc : peekImpl (mkPS (stdF keys m md true)) env.s (q + 1 + n) = _ :=
     (peekImpl_ws hdrop' hw' hn' (by decide)).trans (peekAtChar_close hps (drop_add_of_drop hdrop'))
   obtain ⟨a, b, ns, hgen, hsh⟩ := body_runs htol hreach hpkc rfl rfl
@@ -206,32 +226,36 @@ theorem group_node (htol : env.tol = false) (hn : NormOk m md) {q : Nat} {X Y : 
     rw [normList_congr (hsh.trans hm)]
     rfl
 
-/-- `[ body ]` parsed by the group parser of an optional argument -/
-theorem brgroup_node (htol : env.tol = false) (hn : NormOk m md) (ap : Bool) {q : Nat} {X Y : Str} {trb : List Shape}
-    (hd : env.s.drop q = '[' :: X)
-    (hbody : ReachesW env (stdF keys m md true true) (.braceClose [']']) (.group ['['] (stdF keys m md true true) (stdF keys m md true))
-      { pos := q + 1 } [] trb (']' :: Y)) :
+/-- `o body c` parsed by the group parser of a bracket / delimited argument -/
+theorem xgroup_node (htol : env.tol = false) (hn : NormOk m md) {o c : Char} (hx : XpOk (some (o, c))) (opt ap : Bool) {q : Nat}
+    {X Y : Str} {trb : List Shape} (hd : env.s.drop q = o :: X)
+    (hbody : ReachesW env (stdF keys m md true (some (o, c))) (.braceClose [c])
+      (.group [o] (stdF keys m md true (some (o, c))) (stdF keys m md true)) { pos := q + 1 } [] trb (c :: Y)) :
     ∃ p nd, q ≤ p ∧ env.s.drop p = Y ∧
-      Ev env (.pc (.group (.pair ['['] [']']) true ap) (stdF keys m md true) q) (.ok (.node nd) p) ∧
-      shapeOf nd = .group ['['] [']'] (some (normList trb)) := by
+      Ev env (.pc (.group (.pair [o] [c]) opt ap) (stdF keys m md true) q) (.ok (.node nd) p) ∧
+      shapeOf nd = .group [o] [c] (some (normList trb)) := by
   obtain ⟨tr, n, w', hreach, hdrop, hw', hn', hm⟩ := hbody
-  have hdrop' : env.s.drop (q + 1 + n) = w' ++ ']' :: Y := hdrop
-  have hps := psStd_std keys m md true true hn
-  have hpkc : peekImpl (mkPS (stdF keys m md true true)) env.s (q + 1 + n) = _ :=
-    (peekImpl_ws hdrop' hw' hn' (by decide)).trans (peekAtChar_bclose hps (drop_add_of_drop hdrop'))
-  obtain ⟨a, b, ns, hgen, hsh⟩ := body_runs htol hreach hpkc rfl rfl
-  have hgrp := brgroup_runs htol hn ap hd hgen
+  have hdrop' : env.s.drop (q + 1 + n) = w' ++ c :: Y := hdrop
+  have hps := psStd_std keys m md true (some (o, c)) hn
+  have hpkc : peekImpl (mkPS (stdF keys m md true (some (o, c)))) env.s (q + 1 + n) = _ :=
+    (peekImpl_ws hdrop' hw' hn' (xdelim_ne hx.2.1).2.2.2.2.2).trans (peekAtChar_xclose hps hx (drop_add_of_drop hdrop'))
+  have hst : ∀ (a b : Nat), (StopTok.braceClose [c]).test { kind := TokKind.braceClose, arg := [c], pos := a, posEnd := b, pre := w' } = true := by
+    intro a b
+    simp [StopTok.test]
+    rfl
+  obtain ⟨a, b, ns, hgen, hsh⟩ := body_runs htol hreach hpkc (hst _ _) rfl
+  have hgrp := xgroup_runs htol hn hx opt ap hd hgen
   refine ⟨_, _, ?_, drop_succ_of_drop (drop_add_of_drop hdrop'), hgrp, ?_⟩
   · show q ≤ q + 1 + n + w'.length + 1; omega
   · simp only [shapeOf, shapeOfBody]
     rw [normList_congr (hsh.trans hm)]
     rfl
 
-variable {br : Bool} {stop : StopTok} {child : ChildPS}
+variable {br : Xp} {stop : StopTok} {child : ChildPS}
 
 /-- a brace group in the collector -/
 theorem step_group (htol : env.tol = false) (hn : NormOk m md)
-    (hch : ∀ t : Token, t.arg ≠ ['['] → child.get (stdF keys m md true br) t = stdF keys m md true)
+    (hch : ∀ t : Token, (t.kind = .braceOpen → t.arg = ['{']) → child.get (stdF keys m md true br) t = stdF keys m md true)
     {st : LoopSt} {w X Y : Str} {trb : List Shape} (hd : env.s.drop st.pos = w ++ ('{' :: X)) (hw : isWs w = true)
     (hnl : countNl w < 2)
     (hbody : ReachesW env (stdF keys m md true) (.braceClose ['}']) (.group ['{'] (stdF keys m md true) (stdF keys m md true))
@@ -245,7 +269,7 @@ theorem step_group (htol : env.tol = false) (hn : NormOk m md)
     (peekImpl_ws hd hw hnl (by decide)).trans (peekAtChar_open hps hdq)
   refine ⟨p, by omega, hdp, ?_⟩
   have := reach_dispatch (stop := stop) (child := child) htol hpk (stop_test_char stop _ (Or.inr (Or.inl rfl))) rfl (by omega)
-    (dispatch_group (K := stdF keys m md true) rfl (hch _ (by show ['{'] ≠ ['[']; decide)) hgrp)
+    (dispatch_group (K := stdF keys m md true) rfl (hch _ (fun _ => rfl)) hgrp)
   rw [hshape] at this
   exact this
 
@@ -270,38 +294,199 @@ theorem step_comment (htol : env.tol = false) (hn : NormOk m md) {st : LoopSt} {
       (stop_test_char stop _ (Or.inr (Or.inr (Or.inr (Or.inl rfl))))) rfl
       (by show st.pos ≤ st.pos + w.length + 1 + text.length + (1 + post.length); omega) (dispatch_comment rfl)
 
-/-- a macro call in the collector -/
-theorem step_macro (htol : env.tol = false) (hn : NormOk m md)
-    (hch : ∀ t : Token, t.arg ≠ ['['] → child.get (stdF keys m md true br) t = stdF keys m md true)
-    {st : LoopSt} {w post R : Str} {c0 : Char} {name' : Str} {sig : List ArgSpec} {al : List Arg} {pA : Nat}
-    (hd : env.s.drop st.pos = w ++ ('\\' :: ((c0 :: name') ++ (post ++ R)))) (hw : isWs w = true) (hnl : countNl w < 2)
-    (hname : (c0 :: name').all isAsciiAlpha = true) (hnext : headIs isAsciiAlpha (post ++ R) = false)
-    (hws : isWs post = true) (hnl2 : countNl post < 2) (hr : headIs isPySpace R = false)
-    (hb : (c0 :: name') ≠ "begin".toList) (he : (c0 :: name') ≠ "end".toList)
-    (hspec : env.ctx.macroSpec (c0 :: name') = some (.std sig))
-    (hargs : ArgsEv env (stdF keys m md true) sig [] (st.pos + w.length + 1 + (c0 :: name').length + post.length)
-      (.ok (.args none none al) pA))
-    (hpA : st.pos ≤ pA) :
-    Reaches env (stdF keys m md true br) stop child st (pendSh w ++ [.mac (c0 :: name') (some (shapeOfArgList al))]) (pA - st.pos) := by
-  have hdq : env.s.drop (st.pos + w.length) = '\\' :: ((c0 :: name') ++ (post ++ R)) := drop_add_of_drop hd
+/-- a comment in front of a paragraph break: the collector stops right behind the comment's text -/
+theorem step_comment_par (htol : env.tol = false) (hn : NormOk m md) {st : LoopSt} {w text R : Str}
+    (hd : env.s.drop st.pos = w ++ ('%' :: (text ++ '\n' :: R))) (hw : isWs w = true) (hnl : countNl w < 2)
+    (htext : text.contains '\n' = false) (hpar : parStart ('\n' :: R) = true) :
+    env.s.drop (st.pos + (w.length + 1 + text.length)) = '\n' :: R ∧
+      Reaches env (stdF keys m md true br) stop child st (pendSh w ++ [.comment text]) (w.length + 1 + text.length) := by
+  have hdq : env.s.drop (st.pos + w.length) = '%' :: (text ++ '\n' :: R) := drop_add_of_drop hd
   have hps := psStd_std keys m md true br hn
   have hpk : peekImpl (mkPS (stdF keys m md true br)) env.s st.pos = _ :=
-    (peekImpl_ws hd hw hnl (by decide)).trans (peekAtChar_macro hps (stdExpect_cases m md) hdq hname hnext hws hnl2 hr hb he)
-  have hc0 : (c0 :: name') ≠ ['['] := by
-    intro e
-    simp only [List.all_cons, Bool.and_eq_true] at hname
-    have : c0 = '[' := by simpa using (List.cons.inj e).1
-    subst this
-    have := hname.1
-    revert this; decide
-  have hcall := macroCall_runs (t := ({ kind := TokKind.macro, arg := (c0 :: name'), pos := st.pos + w.length, posEnd := st.pos + w.length + 1 + (c0 :: name').length + post.length, pre := [], post := post } : Token)) (arguments_runs hargs)
+    (peekImpl_ws hd hw hnl (by decide)).trans (peekAtChar_comment_par hps hdq htext hpar)
+  refine ⟨?_, ?_⟩
+  · have d1 := drop_succ_of_drop hdq
+    have d2 := drop_add_of_drop d1
+    rw [← d2]; congr 1; omega
+  · have := reach_dispatch (stop := stop) (child := child) htol hpk
+      (stop_test_char stop _ (Or.inr (Or.inr (Or.inr (Or.inl rfl))))) rfl
+      (by show st.pos ≤ st.pos + w.length + 1 + text.length; omega) (dispatch_comment rfl)
+    have e : st.pos + w.length + 1 + text.length - st.pos = w.length + 1 + text.length := by omega
+    rw [e] at this
+    exact this
+
+/-- the shape a paragraph break stands for -/
+def parShape (ctx : Ctx) (x : Str) : Shape := if parSpec ctx then .specials ['\n', '\n'] [] else .chars x
+
+/-- a paragraph break in the collector -/
+theorem reach_par (ctx : Ctx) (htol : env.tol = false) (hn : NormOk m md) (hctx : env.ctx = ctx) (hkeys : ctxKeys ctx = keys)
+    (hpc : parCore ctx = true)
+    (hch : ∀ t : Token, (t.kind = .braceOpen → t.arg = ['{']) → child.get (stdF keys m md true br) t = stdF keys m md true)
+    {st : LoopSt} {x r : Str} (hd : env.s.drop st.pos = x ++ r) (hw : isWs x = true) (hnl : countNl x ≥ 2)
+    (hh : x.head? = some '\n') (hl : x.getLast? = some '\n') (hr : headIs isPySpace r = false) :
+    Reaches env (stdF keys m md true br) stop child st [parShape ctx x] x.length := by
+  have hps := psStd_std keys m md true br hn
+  have hpk := peekImpl_par (ps := mkPS (stdF keys m md true br)) hd hw hnl hh hl hr hps.dn
+  have hpsp : parSpecials (mkPS (stdF keys m md true br)) = parSpec ctx := by
+    unfold parSpecials parSpec
+    rw [hps.hc, hps.sp, ← hkeys]
+    rfl
+  rw [hpsp] at hpk
+  unfold parShape
+  cases hpsc : parSpec ctx with
+  | true =>
+    rw [hpsc] at hpk
+    simp only [if_true] at hpk ⊢
+    have hspec : lookupFirst ['\n', '\n'] env.ctx.specials = some (.std []) := by
+      rw [hctx]
+      unfold parCore at hpc
+      rw [hpsc] at hpc
+      simp only [Bool.not_true, Bool.false_or] at hpc
+      cases hl : lookupFirst ['\n', '\n'] ctx.specials with
+      | none => rw [hl] at hpc; cases hpc
+      | some a =>
+        rw [hl] at hpc
+        cases a with
+        | std sig =>
+          simp only at hpc
+          rw [List.isEmpty_iff.mp hpc]
+        | legacyVerb => cases hpc
+        | legacyVerbEnv _ _ => cases hpc
+        | unknown => cases hpc
+    have hcall := specialsCall_runs (t := ({ kind := TokKind.specials, arg := ['\n', '\n'], pos := st.pos, posEnd := st.pos + x.length, pre := [] } : Token))
+      (arguments_runs (argsEv_nil (env := env) (stdF keys m md true) [] (st.pos + x.length)))
+    have := reach_dispatch (stop := stop) (child := child) htol hpk
+      (stop_test_char stop _ (Or.inr (Or.inr (Or.inr (Or.inr (Or.inl rfl)))))) rfl
+      (by show st.pos ≤ st.pos + x.length; omega)
+      (dispatch_specials (K := stdF keys m md true) rfl hspec (hch _ (fun h => by cases h)) hcall)
+    have e : st.pos + x.length - st.pos = x.length := by omega
+    rw [e] at this
+    exact this
+  | false =>
+    rw [hpsc] at hpk
+    simp only [Bool.false_eq_true, if_false] at hpk ⊢
+    have := reach_charTok (stop := stop) (child := child) htol hpk rfl (by show st.pos ≤ st.pos + x.length; omega)
+    have e : st.pos + x.length - st.pos = x.length := by omega
+    simp only [e] at this
+    refine Reaches.congr ?_ this
+    have hx : x.isEmpty = false := by
+      cases x with
+      | nil => cases hh
+      | cons c x => rfl
+    show mergeChars (pendSh [] ++ pendSh x) = _
+    rw [pendSh_ne hx]
+    rfl
+
+/-- a macro call in the collector (the control-word token is a hypothesis) -/
+theorem step_macro (htol : env.tol = false)
+    (hch : ∀ t : Token, (t.kind = .braceOpen → t.arg = ['{']) → child.get (stdF keys m md true br) t = stdF keys m md true)
+    {st : LoopSt} {w post X : Str} {c0 : Char} {name' : Str} {al : List Arg} {pA : Nat}
+    (hd : env.s.drop st.pos = w ++ ('\\' :: ((c0 :: name') ++ X))) (hw : isWs w = true) (hnl : countNl w < 2)
+    (htok : peekAtChar (mkPS (stdF keys m md true br)) env.s (st.pos + w.length) '\\' w =
+      .tok { kind := TokKind.macro, arg := (c0 :: name'), pos := st.pos + w.length,
+             posEnd := st.pos + w.length + 1 + (c0 :: name').length + post.length, pre := w, post := post })
+    {a : ArgsP} {x y : Option Nat} (hspec : env.ctx.macroSpec (c0 :: name') = some a)
+    (hargs : Ev env (.pc (.arguments a) (stdF keys m md true) (st.pos + w.length + 1 + (c0 :: name').length + post.length))
+      (.ok (.args x y al) pA))
+    (hpA : st.pos ≤ pA) :
+    Reaches env (stdF keys m md true br) stop child st (pendSh w ++ [.mac (c0 :: name') (some (shapeOfArgList al))]) (pA - st.pos) := by
+  have hpk : peekImpl (mkPS (stdF keys m md true br)) env.s st.pos = _ :=
+    (peekImpl_ws hd hw hnl (by decide)).trans htok
+  have hcall := macroCall_runs (t := ({ kind := TokKind.macro, arg := (c0 :: name'), pos := st.pos + w.length, posEnd := st.pos + w.length + 1 + (c0 :: name').length + post.length, pre := [], post := post } : Token)) hargs
   exact reach_dispatch (stop := stop) (child := child) htol hpk
     (stop_test_char stop _ (Or.inr (Or.inr (Or.inl rfl)))) rfl hpA
-    (dispatch_macro (K := stdF keys m md true) rfl hspec (hch _ hc0) hcall)
+    (dispatch_macro (K := stdF keys m md true) rfl hspec (hch _ (fun h => by cases h)) hcall)
+
+theorem stop_endEnv_math (n : Str) (t : Token) (h : t.kind = .mathInline ∨ t.kind = .mathDisplay) :
+    (StopTok.endEnv n).test t = false := by
+  rcases h with h | h <;> (simp only [StopTok.test, h]; rfl)
+
+theorem envBodyF_eq (bm : Bool) :
+    (if bm then applyDelta (stdF keys m md true) .enterMath else stdF keys m md true) =
+      stdF keys (m || bm) (if bm then none else md) true := by
+  cases bm with
+  | true => cases m <;> rfl
+  | false => cases m <;> rfl
+
+theorem normOk_envBody (hn : NormOk m md) (bm : Bool) : NormOk (m || bm) (if bm then none else md) := by
+  cases bm with
+  | true => intro _; rfl
+  | false =>
+    intro h
+    have : m = false := by cases m <;> first | rfl | cases h
+    simpa using hn this
+
+/-- an environment in the collector: `\begin{name}`, the arguments, the body up to `\end{name}` -/
+theorem step_env (htol : env.tol = false) (hn : NormOk m md)
+    (hch : ∀ t : Token, (t.kind = .braceOpen → t.arg = ['{']) → child.get (stdF keys m md true br) t = stdF keys m md true)
+    {st : LoopSt} {w name A Y : Str} {sig : List ArgSpec} {bm : Bool} {al : List Arg} {pA : Nat} {trb : List Shape}
+    (hd : env.s.drop st.pos = w ++ (beginStr name ++ A)) (hw : isWs w = true) (hnl : countNl w < 2)
+    (hne : name ≠ []) (hall : name.all isEnvNameChar = true)
+    (hspec : env.ctx.envSpec name = some (.std sig, bm))
+    (hargs : ArgsEv env (stdF keys m md true) sig [] (st.pos + w.length + (beginStr name).length) (.ok (.args none none al) pA))
+    (hpA : st.pos ≤ pA)
+    (hbody : ReachesW env (stdF keys (m || bm) (if bm then none else md) true) (.endEnv name) .same { pos := pA } [] trb
+      (endStr name ++ Y)) :
+    ∃ p, st.pos ≤ p ∧ env.s.drop p = Y ∧
+      Reaches env (stdF keys m md true br) stop child st
+        (pendSh w ++ [.env name (some (shapeOfArgList al)) (some (normList trb))]) (p - st.pos) := by
+  obtain ⟨tr, n, w', hreach, hdrop, hw', hn', hm⟩ := hbody
+  have hdrop' : env.s.drop (pA + n) = w' ++ ('\\' :: (envWordStr false ++ '{' :: (name ++ '}' :: Y))) := by
+    rw [← endStr_append]; exact hdrop
+  have hnB := normOk_envBody (m := m) (md := md) hn bm
+  have hpsB := psStd_std keys (m || bm) (if bm then none else md) true none hnB
+  have hpkc : peekImpl (mkPS (stdF keys (m || bm) (if bm then none else md) true)) env.s (pA + n) =
+      .tok { kind := TokKind.endEnv, arg := name, pos := pA + n + w'.length,
+             posEnd := pA + n + w'.length + 1 + envWordLen false + 1 + name.length + 1, pre := w' } :=
+    (peekImpl_ws hdrop' hw' hn' (by decide)).trans
+      (peekAtChar_env hpsB (stdExpect_cases _ _) false (drop_add_of_drop hdrop') hne hall)
+  have hst : ∀ (a b : Nat), (StopTok.endEnv name).test { kind := TokKind.endEnv, arg := name, pos := a, posEnd := b, pre := w' } = true := by
+    intro a b
+    simp [StopTok.test]
+    rfl
+  obtain ⟨a, b, ns, hgen, hsh⟩ := body_runs htol hreach hpkc (hst _ _) rfl
+  -- the call
+  have hdq : env.s.drop (st.pos + w.length) = '\\' :: (envWordStr true ++ '{' :: (name ++ '}' :: A)) := by
+    rw [← beginStr_append]; exact drop_add_of_drop hd
+  have hps := psStd_std keys m md true br hn
+  have hpk : peekImpl (mkPS (stdF keys m md true br)) env.s st.pos =
+      .tok { kind := TokKind.beginEnv, arg := name, pos := st.pos + w.length,
+             posEnd := st.pos + w.length + 1 + envWordLen true + 1 + name.length + 1, pre := w } :=
+    (peekImpl_ws (c := '\\') (rest := envWordStr true ++ '{' :: (name ++ '}' :: A)) (by rw [hd, beginStr_append]) hw hnl (by decide)).trans
+      (peekAtChar_env hps (stdExpect_cases m md) true hdq hne hall)
+  have hposA : st.pos + w.length + 1 + envWordLen true + 1 + name.length + 1 = st.pos + w.length + (beginStr name).length := by
+    rw [beginStr_length]; omega
+  have hgen' : Ev env (.pc (.general (.endEnv name) true .same) (stdF keys (m || bm) (if bm then none else md) true) pA)
+      (.ok (.list a b ns) (pA + n + w'.length + 1 + envWordLen false + 1 + name.length + 1)) := hgen
+  have hbodyEv := envBody_runs hgen'
+  rw [← envBodyF_eq (keys := keys) (m := m) (md := md) bm] at hbodyEv
+  have hcall := envCall_runs (K := stdF keys m md true)
+    (t := ({ kind := TokKind.beginEnv, arg := name, pos := st.pos + w.length,
+             posEnd := st.pos + w.length + 1 + envWordLen true + 1 + name.length + 1, pre := [] } : Token))
+    (a := .std sig) (bm := bm) (pos := st.pos + w.length + 1 + envWordLen true + 1 + name.length + 1)
+    (by rw [hposA]; exact arguments_runs hargs) hbodyEv
+  have hdY : env.s.drop (pA + n + w'.length + 1 + envWordLen false + 1 + name.length + 1) = Y := by
+    have h1 := drop_add_of_drop hdrop'
+    rw [← endStr_append] at h1
+    have h2 := drop_add_of_drop h1
+    rw [endStr_length] at h2
+    rw [← h2]; congr 1; omega
+  refine ⟨pA + n + w'.length + 1 + envWordLen false + 1 + name.length + 1, by omega, hdY, ?_⟩
+  have := reach_dispatch (stop := stop) (child := child) htol hpk
+    (stop_test_char stop _ (Or.inr (Or.inr (Or.inr (Or.inr (Or.inr rfl)))))) rfl (by omega)
+    (dispatch_env (K := stdF keys m md true) (ab := (.std sig, bm)) rfl hspec (hch _ (fun h => by cases h)) hcall)
+  have e : shapeOf (Node.env (st.pos + w.length) (pA + n + w'.length + 1 + envWordLen false + 1 + name.length + 1)
+      (psInfo (stdF keys m md true)) name (some al) (some ns))
+      = .env name (some (shapeOfArgList al)) (some (normList trb)) := by
+    simp only [shapeOf, shapeOfArgs, shapeOfBody]
+    rw [normList_congr (hsh.trans hm)]
+    rfl
+  rw [e] at this
+  exact this
 
 /-- a specials item in the collector -/
-theorem step_specials (htol : env.tol = false) (hn : NormOk m md)
-    (hch : ∀ t : Token, t.arg ≠ ['['] → child.get (stdF keys m md true br) t = stdF keys m md true)
+theorem step_specials (htol : env.tol = false) (hn : NormOk m md) (hx : XpOk br)
+    (hch : ∀ t : Token, (t.kind = .braceOpen → t.arg = ['{']) → child.get (stdF keys m md true br) t = stdF keys m md true)
     {st : LoopSt} {w R : Str} {c : Char} {name' : Str}
     (hd : env.s.drop st.pos = w ++ ((c :: name') ++ R)) (hw : isWs w = true) (hnl : countNl w < 2)
     (hc : specialsHeadOk c = true) (hts : testSpecials keys ((c :: name') ++ R) 0 = some (c :: name'))
@@ -311,17 +496,13 @@ theorem step_specials (htol : env.tol = false) (hn : NormOk m md)
   have hps := psStd_std keys m md true br hn
   have hcs := specialsHead_ne hc
   have hpk : peekImpl (mkPS (stdF keys m md true br)) env.s st.pos = _ :=
-    (peekImpl_ws (c := c) (rest := name' ++ R) (by rw [hd]; rfl) hw hnl hcs.1).trans (peekAtChar_specials hps hdq hc hts)
-  have hc0 : (c :: name') ≠ ['['] := by
-    intro e
-    have : c = '[' := by simpa using (List.cons.inj e).1
-    exact hcs.2.2.2.2.2.2.1 this
+    (peekImpl_ws (c := c) (rest := name' ++ R) (by rw [hd]; rfl) hw hnl hcs.1).trans (peekAtChar_specials hps hx hdq hc hts)
   have hcall := specialsCall_runs (t := ({ kind := TokKind.specials, arg := (c :: name'), pos := st.pos + w.length, posEnd := st.pos + w.length + (c :: name').length, pre := [] } : Token))
     (arguments_runs (argsEv_nil (env := env) (stdF keys m md true) [] (st.pos + w.length + (c :: name').length)))
   have := reach_dispatch (stop := stop) (child := child) htol hpk
     (stop_test_char stop _ (Or.inr (Or.inr (Or.inr (Or.inr (Or.inl rfl)))))) rfl
     (by show st.pos ≤ st.pos + w.length + (c :: name').length; omega)
-    (dispatch_specials (K := stdF keys m md true) rfl hspec (hch _ hc0) hcall)
+    (dispatch_specials (K := stdF keys m md true) rfl hspec (hch _ (fun h => by cases h)) hcall)
   have e : st.pos + w.length + (c :: name').length - st.pos = w.length + (c :: name').length := by omega
   rw [e] at this
   exact this
@@ -329,8 +510,8 @@ theorem step_specials (htol : env.tol = false) (hn : NormOk m md)
 end steps
 
 /-- math in the collector -/
-theorem step_math (htol : env.tol = false) (k : FKind) {br : Bool} {stop : StopTok} {child : ChildPS}
-    (hch : ∀ t : Token, t.arg ≠ ['['] → child.get (stdF keys false none true br) t = stdF keys false none true)
+theorem step_math (htol : env.tol = false) (k : FKind) {br : Xp} {stop : StopTok} {child : ChildPS}
+    (hch : ∀ t : Token, (t.kind = .braceOpen → t.arg = ['{']) → child.get (stdF keys false none true br) t = stdF keys false none true)
     (hstop : ∀ t : Token, t.kind = .mathInline ∨ t.kind = .mathDisplay → stop.test t = false)
     {st : LoopSt} {w X Y : Str} {trb : List Shape} (hd : env.s.drop st.pos = w ++ (k.opener ++ X)) (hw : isWs w = true)
     (hnl : countNl w < 2) (hdollar : k = .dollar → headIs (· == '$') X = false)
@@ -345,8 +526,8 @@ theorem step_math (htol : env.tol = false) (k : FKind) {br : Bool} {stop : StopT
   -- the closer
   obtain ⟨cc, rc, hcc⟩ : ∃ c r0, k.closer = c :: r0 := by cases k <;> exact ⟨_, _, rfl⟩
   have hccs : isPySpace cc = false := by cases k <;> (cases hcc; decide)
-  have hpsM : PSStd keys true true (some (k.closer, k.display)) false (mkPS (stdF keys true (some k.opener) true)) := by
-    have := psStd_std keys true (some k.opener) true false (normOk_true _)
+  have hpsM : PSStd keys true true (some (k.closer, k.display)) none (mkPS (stdF keys true (some k.opener) true)) := by
+    have := psStd_std keys true (some k.opener) true none (normOk_true _)
     rw [stdExpect_opener] at this
     exact this
   have hpkc : peekImpl (mkPS (stdF keys true (some k.opener) true)) env.s (st.pos + w.length + k.opener.length + n) =
@@ -377,7 +558,7 @@ theorem step_math (htol : env.tol = false) (k : FKind) {br : Bool} {stop : StopT
   · exact drop_add_of_drop (drop_add_of_drop hdrop')
   · have := reach_dispatch (stop := stop) (child := child) htol hpk (hstop _ hkindm) hkc (by omega)
       (dispatch_math (K := stdF keys false none true) (tk := { mathTok (st.pos + w.length) w k.opener k.display with pre := [] })
-        hkindm (hch _ harg) hopen hmath)
+        hkindm (hch _ (fun h => by cases k <;> cases h)) hopen hmath)
     have e : shapeOf (Node.math (st.pos + w.length) (st.pos + w.length + k.opener.length + n + w'.length + k.closer.length)
         (psInfo (stdF keys false none true)) k.display k.opener k.closer (some ns))
         = .math k.display k.opener k.closer (some (normList trb)) := by
@@ -388,7 +569,7 @@ theorem step_math (htol : env.tol = false) (k : FKind) {br : Bool} {stop : StopT
     exact this
 
 /-- a comment followed by something that is not whitespace, the rest being handled by `hrec` -/
-theorem comment_then (ctx : Ctx) (htol : env.tol = false) {m : Bool} {md : Option Str} (hn : NormOk m md) {br : Bool}
+theorem comment_then (ctx : Ctx) (htol : env.tol = false) {m : Bool} {md : Option Str} (hn : NormOk m md) {br : Xp}
     {stop : StopTok} {child : ChildPS} {X : List Item} {text ind after w : Str} {st : LoopSt}
     (hprev : treeRaw ctx (some ('\n' :: ind)) X = treeRaw ctx none X)
     (hd : env.s.drop st.pos = w ++ (unparseItems (.C text ('\n' :: ind) :: X) ++ after)) (hw : isWs w = true)
@@ -407,14 +588,50 @@ theorem comment_then (ctx : Ctx) (htol : env.tol = false) {m : Bool} {md : Optio
     rw [hp1, e]; exact hdp))
   simpa only [treeRaw, hprev, List.singleton_append] using this
 
+theorem argKind_t_of_beq (k : ArgKind) (c : Char) (h : (k == ArgKind.t c) = true) : k = .t c := by
+  cases k with
+  | t c' =>
+    have : c' = c := by
+      by_cases e : c' = c
+      · exact e
+      · exfalso
+        have : (ArgKind.t c' == ArgKind.t c) = decide (c' = c) := rfl
+        rw [this] at h
+        simp [e] at h
+    rw [this]
+  | _ => cases h
+theorem argKind_r_of_beq (k : ArgKind) (o c : Char) (h : (k == ArgKind.r o c) = true) : k = .r o c := by
+  cases k with
+  | r o' c' =>
+    have : (ArgKind.r o' c' == ArgKind.r o c) = (decide (o' = o) && decide (c' = c)) := rfl
+    rw [this] at h
+    simp at h
+    rw [h.1, h.2]
+  | _ => cases h
+theorem argKind_d_of_beq (k : ArgKind) (o c : Char) (h : (k == ArgKind.d o c) = true) : k = .d o c := by
+  cases k with
+  | d o' c' =>
+    have : (ArgKind.d o' c' == ArgKind.d o c) = (decide (o' = o) && decide (c' = c)) := rfl
+    rw [this] at h
+    simp at h
+    rw [h.1, h.2]
+  | _ => cases h
+
 theorem argKind_s_of_beq (k : ArgKind) (h : (k == ArgKind.s) = true) : k = .s := by
   cases k <;> first | rfl | cases h
 
 theorem argKind_m_of_beq (k : ArgKind) (h : (k == ArgKind.m) = true) : k = .m := by
   cases k <;> first | rfl | cases h
 
-theorem pendSh_ne {w : Str} (h : w.isEmpty = false) : pendSh w = [.chars w] := by
-  unfold pendSh; rw [h]; rfl
+theorem parStart_of {x r : Str} (hw : isWs x = true) (hn : countNl x ≥ 2) (hh : x.head? = some '\n')
+    (hr : headIs isPySpace r = false) : parStart (x ++ r) = true := by
+  unfold parStart
+  rw [takeWhile_ws hw hr]
+  cases x with
+  | nil => cases hh
+  | cons c x =>
+    simp only [List.cons_append, List.head?_cons] at hh ⊢
+    simp [hh, hn]
 
 /-! ### the prefix lemma, by recursion on the derivation -/
 
@@ -425,27 +642,27 @@ mutual
 theorem items_reach (ctx : Ctx) (htol : env.tol = false) (hk : keysCore keys = true) (hctx : env.ctx = ctx)
     (hkeys : ctxKeys ctx = keys) :
     ∀ (a : List Item) (m : Bool) (after : Str), coreItems ctx m after a = true → ∀ (md : Option Str), NormOk m md →
-      ∀ (br : Bool) (stop : StopTok) (child : ChildPS),
-      (∀ t : Token, t.arg ≠ ['['] → child.get (stdF keys m md true br) t = stdF keys m md true) →
+      ∀ (br : Xp) (stop : StopTok) (child : ChildPS), XpOk br →
+      (∀ t : Token, (t.kind = .braceOpen → t.arg = ['{']) → child.get (stdF keys m md true br) t = stdF keys m md true) →
       (m = false → ∀ t : Token, t.kind = .mathInline ∨ t.kind = .mathDisplay → stop.test t = false) →
       ∀ (st : LoopSt) (w : Str), isWs w = true → countNl w < 2 →
         (w = [] ∨ headIs isPySpace (unparseItems a ++ after) = false) →
         env.s.drop st.pos = w ++ (unparseItems a ++ after) →
         ReachesW env (stdF keys m md true br) stop child st w (treeRaw ctx none a) after
-  | [], m, after, _, md, _, br, stop, child, _, _, st, w, hw, hnl, _, hd => by
+  | [], m, after, _, md, _, br, stop, child, _, _, _, st, w, hw, hnl, _, hd => by
     simp only [unparseItems, List.nil_append] at hd
     simpa only [treeRaw] using ReachesW.nil hd hw hnl
-  | .T t :: tl, m, after, hc, md, hn, br, stop, child, hch, hsm, st, w, hw, hnl, _, hd => by
+  | .T t :: tl, m, after, hc, md, hn, br, stop, child, hx, hch, hsm, st, w, hw, hnl, _, hd => by
     simp only [coreItems, Bool.and_eq_true, Bool.not_eq_eq_eq_not, Bool.not_true] at hc
     obtain ⟨⟨hne, hall⟩, htl⟩ := hc
     simp only [unparseItems, List.append_assoc] at hd
-    have h1 := reach_text (br := br) (stop := stop) (child := child) htol hn hk hd hw hnl
+    have h1 := reach_text (br := br) (stop := stop) (child := child) htol hn hx hk hd hw hnl
       (by intro e; rw [e] at hne; simp at hne) hall
-    have := ReachesW.step h1 rfl (fun st1 hp => items_reach ctx htol hk hctx hkeys tl m after htl md hn br stop child hch hsm
+    have := ReachesW.step h1 rfl (fun st1 hp => items_reach ctx htol hk hctx hkeys tl m after htl md hn br stop child hx hch hsm
       st1 [] rfl (by decide) (Or.inl rfl) (by
         rw [hp, ← Nat.add_assoc]; exact drop_add_of_drop (drop_add_of_drop hd)))
     simpa only [treeRaw, List.singleton_append] using this
-  | .W w2 :: tl, m, after, hc, md, hn, br, stop, child, hch, hsm, st, w, hw, hnl, hpre, hd => by
+  | .W w2 :: tl, m, after, hc, md, hn, br, stop, child, hx, hch, hsm, st, w, hw, hnl, hpre, hd => by
     simp only [coreItems, Bool.and_eq_true, Bool.not_eq_eq_eq_not, Bool.not_true, decide_eq_true_eq] at hc
     obtain ⟨⟨⟨⟨hne, hws⟩, hnl2⟩, hhead⟩, htl⟩ := hc
     have hw0 : w = [] := by
@@ -459,32 +676,33 @@ theorem items_reach (ctx : Ctx) (htol : env.tol = false) (hk : keysCore keys = t
           simp [unparseItems, headIs, hws.1] at h
     subst hw0
     simp only [unparseItems, List.append_assoc, List.nil_append] at hd
-    obtain ⟨tr, n, w', h1, h2, h3, h4, h5⟩ := items_reach ctx htol hk hctx hkeys tl m after htl md hn br stop child hch hsm
+    obtain ⟨tr, n, w', h1, h2, h3, h4, h5⟩ := items_reach ctx htol hk hctx hkeys tl m after htl md hn br stop child hx hch hsm
       st w2 hws hnl2 (Or.inr hhead) hd
     refine ⟨tr, n, w', h1, h2, h3, h4, ?_⟩
     rw [h5, pendSh_ne hne]
     simp only [treeRaw, pendSh, List.isEmpty_nil, if_true, List.nil_append, List.singleton_append]
-  | .G b :: tl, m, after, hc, md, hn, br, stop, child, hch, hsm, st, w, hw, hnl, _, hd => by
+  | .G b :: tl, m, after, hc, md, hn, br, stop, child, hx, hch, hsm, st, w, hw, hnl, _, hd => by
     simp only [coreItems, Bool.and_eq_true] at hc
     obtain ⟨hb, htl⟩ := hc
     simp only [unparseItems, List.cons_append, List.append_assoc] at hd
     have hd1 : env.s.drop (st.pos + w.length + 1) = [] ++ (unparseItems b ++ '}' :: (unparseItems tl ++ after)) :=
       drop_succ_of_drop (drop_add_of_drop hd)
-    have hbody := items_reach ctx htol hk hctx hkeys b m ('}' :: (unparseItems tl ++ after)) hb md hn false (.braceClose ['}'])
-      (.group ['{'] (stdF keys m md true) (stdF keys m md true)) (fun t _ => child_group _ _ t)
+    have hbody := items_reach ctx htol hk hctx hkeys b m ('}' :: (unparseItems tl ++ after)) hb md hn none (.braceClose ['}'])
+      (.group ['{'] (stdF keys m md true) (stdF keys m md true)) trivial (fun t _ => child_group _ _ t)
       (fun _ t ht => stop_brace_math _ t ht) { pos := st.pos + w.length + 1 } [] rfl (by decide) (Or.inl rfl) hd1
     obtain ⟨p, hp, hdp, hr⟩ := step_group (br := br) (stop := stop) (child := child) htol hn hch hd hw hnl hbody
-    have := ReachesW.step hr rfl (fun st1 hp1 => items_reach ctx htol hk hctx hkeys tl m after htl md hn br stop child hch hsm
+    have := ReachesW.step hr rfl (fun st1 hp1 => items_reach ctx htol hk hctx hkeys tl m after htl md hn br stop child hx hch hsm
       st1 [] rfl (by decide) (Or.inl rfl) (by
         have e : st.pos + (p - st.pos) = p := by omega
         rw [hp1, e]; exact hdp))
     simpa only [treeRaw, List.singleton_append] using this
-  | .C text tail :: tl, m, after, hc, md, hn, br, stop, child, hch, hsm, st, w, hw, hnl, _, hd => by
+  | .C text tail :: tl, m, after, hc, md, hn, br, stop, child, hx, hch, hsm, st, w, hw, hnl, _, hd => by
     cases htlq : tl with
     | nil =>
       rw [htlq] at hc hd
       rw [coreItems] at hc
       rotate_left
+      · intro _ _ h; cases h
       · intro _ _ h; cases h
       simp only [Bool.and_eq_true, Bool.not_eq_eq_eq_not, Bool.not_true, decide_eq_true_eq, beq_iff_eq] at hc
       obtain ⟨⟨⟨⟨⟨htext, hhead⟩, hws⟩, hnl2⟩, hhead2⟩, htl⟩ := hc
@@ -499,7 +717,7 @@ theorem items_reach (ctx : Ctx) (htol : env.tol = false) (hk : keysCore keys = t
             simpa only [treeRaw] using ReachesW.nil hd1 hw1 hnl1)
     | cons it tl' =>
       rw [htlq] at hc hd
-      have hrecA := fun htl => items_reach ctx htol hk hctx hkeys (it :: tl') m after htl md hn br stop child hch hsm
+      have hrecA := fun htl => items_reach ctx htol hk hctx hkeys (it :: tl') m after htl md hn br stop child hx hch hsm
       cases it with
       | W w2 =>
         simp only [coreItems, Bool.and_eq_true, Bool.not_eq_eq_eq_not, Bool.not_true, decide_eq_true_eq, beq_iff_eq] at hc
@@ -520,16 +738,52 @@ theorem items_reach (ctx : Ctx) (htol : env.tol = false) (hk : keysCore keys = t
               simp only [countNl, List.count_cons, List.count_append]; omega
             omega
           obtain ⟨p, hp, hdp, hr⟩ := step_comment (br := br) (stop := stop) (child := child) htol hn hd' hw hnl htext hwsp hnlp hhead2
-          have := ReachesW.step hr rfl (fun st1 hp1 => items_reach ctx htol hk hctx hkeys tl' m after htl md hn br stop child hch hsm
+          have := ReachesW.step hr rfl (fun st1 hp1 => items_reach ctx htol hk hctx hkeys tl' m after htl md hn br stop child hx hch hsm
             st1 [] rfl (by decide) (Or.inl rfl) (by
               have e : st.pos + (p - st.pos) = p := by omega
               rw [hp1, e]; exact hdp))
           simpa only [treeRaw, List.singleton_append] using this
+      | P w2 =>
+        simp only [coreItems, Bool.and_eq_true, Bool.not_eq_eq_eq_not, Bool.not_true, decide_eq_true_eq, beq_iff_eq, and_true] at hc
+        obtain ⟨⟨⟨⟨htext, hhead⟩, hws⟩, hnl2⟩, ⟨⟨⟨⟨⟨⟨hm, hws2⟩, hnl3⟩, hh2⟩, hl2⟩, hhead2⟩, hpc⟩, htl⟩ := hc
+        cases tail with
+        | nil => simp at hhead
+        | cons c0 ind =>
+          have hc0 : c0 = '\n' := by simpa using hhead
+          subst hc0
+          simp only [unparseItems, List.cons_append, List.append_assoc] at hd
+          have hxw : isWs ('\n' :: (ind ++ w2)) = true := by
+            simp only [isWs, List.all_cons, List.all_append, Bool.and_eq_true] at hws hws2 ⊢
+            exact ⟨hws.1, hws.2, hws2⟩
+          have hxn : countNl ('\n' :: (ind ++ w2)) ≥ 2 := by
+            have : countNl ('\n' :: (ind ++ w2)) = countNl ('\n' :: ind) + countNl w2 := by
+              simp only [countNl, List.count_cons, List.count_append]; omega
+            omega
+          have hxl : ('\n' :: (ind ++ w2)).getLast? = some '\n' := by
+            have : ('\n' :: (ind ++ w2)) = ('\n' :: ind) ++ w2 := rfl
+            rw [this, List.getLast?_append, hl2]
+            rfl
+          have hpar : parStart ('\n' :: (ind ++ (w2 ++ (unparseItems tl' ++ after)))) = true := by
+            have := parStart_of (x := '\n' :: (ind ++ w2)) (r := unparseItems tl' ++ after) hxw hxn rfl hhead2
+            simpa only [List.cons_append, List.append_assoc] using this
+          obtain ⟨hdp, hr1⟩ := step_comment_par (br := br) (stop := stop) (child := child) htol hn hd hw hnl htext hpar
+          have hr2 := Reaches.trans hr1 (fun st1 hp1 => reach_par (br := br) (stop := stop) (child := child) (st := st1)
+            (x := '\n' :: (ind ++ w2)) (r := unparseItems tl' ++ after) ctx htol hn hctx hkeys hpc hch
+            (by rw [hp1, hdp]; simp only [List.cons_append, List.append_assoc]) hxw hxn rfl hxl hhead2)
+          have := ReachesW.step hr2 (by rw [List.append_assoc]) (fun st1 hp1 => items_reach ctx htol hk hctx hkeys tl' m after htl md hn br stop child hx hch hsm
+            st1 [] rfl (by decide) (Or.inl rfl) (by
+              have := drop_add_of_drop (a := '\n' :: (ind ++ w2)) (rest := unparseItems tl' ++ after)
+                (by rw [hdp]; simp only [List.cons_append, List.append_assoc] : env.s.drop (st.pos + (w.length + 1 + text.length)) = _)
+              rw [hp1, List.nil_append, ← this]
+              congr 1
+              omega))
+          simpa only [treeRaw, parShape, Option.getD_some, List.cons_append, List.nil_append, List.singleton_append] using this
       | _ =>
         first
         | (simp [coreItems] at hc; done)
         | (rw [coreItems] at hc
            rotate_left
+           · intro _ _ h; cases h
            · intro _ _ h; cases h
            simp only [Bool.and_eq_true, Bool.not_eq_eq_eq_not, Bool.not_true, decide_eq_true_eq, beq_iff_eq] at hc
            obtain ⟨⟨⟨⟨⟨htext, hhead⟩, hws⟩, hnl2⟩, hhead2⟩, htl⟩ := hc
@@ -539,10 +793,9 @@ theorem items_reach (ctx : Ctx) (htol : env.tol = false) (hk : keysCore keys = t
              have hc0 : c0 = '\n' := by simpa using hhead
              subst hc0
              exact comment_then ctx htol hn (by simp only [treeRaw]) hd hw hnl htext hws hnl2 hhead2 (hrecA htl))
-  | .M name post args :: tl, m, after, hc, md, hn, br, stop, child, hch, hsm, st, w, hw, hnl, _, hd => by
-    simp only [coreItems, isControlWord, Bool.and_eq_true, Bool.not_eq_eq_eq_not, Bool.not_true, decide_eq_true_eq,
-      bne_iff_ne, ne_eq] at hc
-    obtain ⟨⟨⟨⟨⟨⟨⟨⟨⟨hne, hall⟩, hnb⟩, hnend⟩, hwsp⟩, hnlp⟩, hnext⟩, hhead⟩, hargs⟩, htl⟩ := hc
+  | .M name post args :: tl, m, after, hc, md, hn, br, stop, child, hx, hch, hsm, st, w, hw, hnl, _, hd => by
+    simp only [coreItems, Bool.and_eq_true] at hc
+    obtain ⟨⟨hhdr, hargs⟩, htl⟩ := hc
     cases hms : ctx.macroSpec name with
     | none => rw [hms] at hargs; cases hargs
     | some a =>
@@ -550,29 +803,71 @@ theorem items_reach (ctx : Ctx) (htol : env.tol = false) (hk : keysCore keys = t
       | std sig =>
         rw [hms] at hargs
         simp only at hargs
-        cases name with
-        | nil => simp at hne
-        | cons c0 name' =>
-          simp only [unparseItems, List.cons_append, List.append_assoc] at hd
-          have hd' : env.s.drop st.pos = w ++ ('\\' :: ((c0 :: name') ++ (post ++ (unparseArgs args ++ (unparseItems tl ++ after))))) := by
-            rw [hd]; rfl
-          have hdA : env.s.drop (st.pos + w.length + 1 + (c0 :: name').length + post.length) = unparseArgs args ++ (unparseItems tl ++ after) :=
-            drop_add_of_drop (drop_add_of_drop (drop_succ_of_drop (drop_add_of_drop hd')))
-          obtain ⟨al, pA, hAE, hpA, hdpA, hshape⟩ := args_reach ctx htol hk hctx hkeys sig args m (unparseItems tl ++ after) hargs md hn []
-            (st.pos + w.length + 1 + (c0 :: name').length + post.length) hdA
-          rw [List.nil_append] at hAE
-          have hr := step_macro (br := br) (stop := stop) (child := child) htol hn hch hd' hw hnl hall hnext hwsp hnlp hhead hnb hnend
-            (by rw [hctx]; exact hms) hAE (by omega)
-          rw [hshape] at hr
-          have := ReachesW.step hr rfl (fun st1 hp1 => items_reach ctx htol hk hctx hkeys tl m after htl md hn br stop child hch hsm
-            st1 [] rfl (by decide) (Or.inl rfl) (by
-              have e : st.pos + (pA - st.pos) = pA := by omega
-              rw [hp1, e]; exact hdpA))
-          simpa only [treeRaw, List.singleton_append] using this
+        -- the token of the call and the position behind it
+        have htokA : ∃ (c0 : Char) (name' : Str), name = c0 :: name' ∧
+            peekAtChar (mkPS (stdF keys m md true br)) env.s (st.pos + w.length) '\\' w =
+              .tok { kind := TokKind.macro, arg := (c0 :: name'), pos := st.pos + w.length,
+                     posEnd := st.pos + w.length + 1 + (c0 :: name').length + post.length, pre := w, post := post } := by
+          have hps := psStd_std keys m md true br hn
+          have hdq : env.s.drop (st.pos + w.length) = '\\' :: (name ++ (post ++ (unparseArgs args ++ (unparseItems tl ++ after)))) := by
+            have : env.s.drop st.pos = w ++ ('\\' :: (name ++ (post ++ (unparseArgs args ++ (unparseItems tl ++ after))))) := by
+              rw [hd]; simp only [unparseItems, List.cons_append, List.append_assoc]
+            exact drop_add_of_drop this
+          cases hcw : isControlWord name with
+          | true =>
+            rw [hcw] at hhdr
+            simp only [if_true, Bool.and_eq_true, Bool.not_eq_eq_eq_not, Bool.not_true, decide_eq_true_eq,
+              bne_iff_ne, ne_eq, Bool.or_eq_true] at hhdr
+            obtain ⟨⟨⟨⟨⟨hnb, hnend⟩, hwsp⟩, hnlp⟩, hnext⟩, hhead⟩ := hhdr
+            simp only [isControlWord, Bool.and_eq_true, Bool.not_eq_eq_eq_not, Bool.not_true] at hcw
+            obtain ⟨hne, hall⟩ := hcw
+            cases name with
+            | nil => simp at hne
+            | cons c0 name' =>
+              refine ⟨c0, name', rfl, ?_⟩
+              rcases hhead with hh | ⟨hpe, hpar⟩
+              · exact peekAtChar_macro hps (stdExpect_cases m md) hdq hall hnext hwsp hnlp hh hnb hnend
+              · have hp0 : post = [] := List.isEmpty_iff.mp hpe
+                subst hp0
+                exact peekAtChar_macro_par hps (stdExpect_cases m md) hdq hall hpar hnb hnend
+          | false =>
+            rw [hcw] at hhdr
+            simp only [Bool.false_eq_true, if_false, Bool.and_eq_true] at hhdr
+            obtain ⟨hpe, hsym⟩ := hhdr
+            have hp0 : post = [] := List.isEmpty_iff.mp hpe
+            subst hp0
+            cases name with
+            | nil => cases hsym
+            | cons c0 name' =>
+              cases name' with
+              | cons _ _ => cases hsym
+              | nil =>
+                simp only [isControlSymbol, Bool.and_eq_true, Bool.not_eq_eq_eq_not, Bool.not_true, bne_iff_ne, ne_eq] at hsym
+                obtain ⟨⟨⟨⟨⟨ha, _⟩, n1⟩, n2⟩, n3⟩, n4⟩ := hsym
+                refine ⟨c0, [], rfl, ?_⟩
+                exact peekAtChar_macro1 hps (stdExpect_cases m md) hdq ha n1 n2 n3 n4
+        obtain ⟨c0, name', hname, htok⟩ := htokA
+        subst hname
+        simp only [unparseItems, List.cons_append, List.append_assoc] at hd
+        have hd' : env.s.drop st.pos = w ++ ('\\' :: ((c0 :: name') ++ (post ++ (unparseArgs args ++ (unparseItems tl ++ after))))) := by
+          rw [hd]; rfl
+        have hdA : env.s.drop (st.pos + w.length + 1 + (c0 :: name').length + post.length) = unparseArgs args ++ (unparseItems tl ++ after) :=
+          drop_add_of_drop (drop_add_of_drop (drop_succ_of_drop (drop_add_of_drop hd')))
+        obtain ⟨al, pA, hAE, hpA, hdpA, hshape⟩ := args_reach ctx htol hk hctx hkeys sig args m (unparseItems tl ++ after) hargs md hn []
+          (st.pos + w.length + 1 + (c0 :: name').length + post.length) hdA
+        rw [List.nil_append] at hAE
+        have hr := step_macro (br := br) (stop := stop) (child := child) htol hch hd' hw hnl htok
+          (by rw [hctx]; exact hms) (arguments_runs hAE) (by omega)
+        rw [hshape] at hr
+        have := ReachesW.step hr rfl (fun st1 hp1 => items_reach ctx htol hk hctx hkeys tl m after htl md hn br stop child hx hch hsm
+          st1 [] rfl (by decide) (Or.inl rfl) (by
+            have e : st.pos + (pA - st.pos) = pA := by omega
+            rw [hp1, e]; exact hdpA))
+        simpa only [treeRaw, List.singleton_append] using this
       | legacyVerb => rw [hms] at hargs; cases hargs
       | legacyVerbEnv _ _ => rw [hms] at hargs; cases hargs
       | unknown => rw [hms] at hargs; cases hargs
-  | .F k b :: tl, m, after, hc, md, hn, br, stop, child, hch, hsm, st, w, hw, hnl, _, hd => by
+  | .F k b :: tl, m, after, hc, md, hn, br, stop, child, hx, hch, hsm, st, w, hw, hnl, _, hd => by
     simp only [coreItems, Bool.and_eq_true, Bool.not_eq_eq_eq_not, Bool.not_true, Bool.or_eq_true, bne_iff_ne, ne_eq] at hc
     obtain ⟨⟨⟨hm, hb⟩, hdol⟩, htl⟩ := hc
     subst hm
@@ -582,7 +877,7 @@ theorem items_reach (ctx : Ctx) (htol : env.tol = false) (hk : keysCore keys = t
     have hd1 : env.s.drop (st.pos + w.length + k.opener.length) = [] ++ (unparseItems b ++ (k.closer ++ (unparseItems tl ++ after))) :=
       drop_add_of_drop (drop_add_of_drop hd)
     have hbody := items_reach ctx htol hk hctx hkeys b true (k.closer ++ (unparseItems tl ++ after)) hb (some k.opener) (normOk_true _)
-      false (.mathClose k.display k.closer) .same (fun t _ => rfl) (fun h => by cases h)
+      none (.mathClose k.display k.closer) .same trivial (fun t _ => rfl) (fun h => by cases h)
       { pos := st.pos + w.length + k.opener.length } [] rfl (by decide) (Or.inl rfl) hd1
     have hdollar : k = .dollar → headIs (· == '$') (unparseItems b ++ (k.closer ++ (unparseItems tl ++ after))) = false := by
       intro hk2
@@ -590,14 +885,69 @@ theorem items_reach (ctx : Ctx) (htol : env.tol = false) (hk : keysCore keys = t
       · subst hk2; cases h
       · exact core_head_not_dollar ctx _ b hb _ h
     obtain ⟨p, hp, hdp, hr⟩ := step_math (br := br) (stop := stop) (child := child) htol k hch (hsm rfl) hd hw hnl hdollar hbody
-    have := ReachesW.step hr rfl (fun st1 hp1 => items_reach ctx htol hk hctx hkeys tl false after htl none hn br stop child hch hsm
+    have := ReachesW.step hr rfl (fun st1 hp1 => items_reach ctx htol hk hctx hkeys tl false after htl none hn br stop child hx hch hsm
       st1 [] rfl (by decide) (Or.inl rfl) (by
         have e : st.pos + (p - st.pos) = p := by omega
         rw [hp1, e]; exact hdp))
     simpa only [treeRaw, List.singleton_append] using this
-  | .P _ :: _, _, _, hc, _, _, _, _, _, _, _, _, _, _, _, _, _ => by simp [coreItems] at hc
-  | .E _ _ _ :: _, _, _, hc, _, _, _, _, _, _, _, _, _, _, _, _, _ => by simp [coreItems] at hc
-  | .S name args :: tl, m, after, hc, md, hn, br, stop, child, hch, hsm, st, w, hw, hnl, _, hd => by
+  | .P w2 :: tl, m, after, hc, md, hn, br, stop, child, hx, hch, hsm, st, w, hw, hnl, hpre, hd => by
+    simp only [coreItems, Bool.and_eq_true, Bool.not_eq_eq_eq_not, Bool.not_true, decide_eq_true_eq, beq_iff_eq] at hc
+    obtain ⟨⟨⟨⟨⟨⟨⟨hm, hws⟩, hnl2⟩, hh⟩, hl⟩, hhead⟩, hpc⟩, htl⟩ := hc
+    have hw0 : w = [] := by
+      rcases hpre with h | h
+      · exact h
+      · exfalso
+        cases w2 with
+        | nil => cases hh
+        | cons c w2 =>
+          have hc : c = '\n' := by simpa using hh
+          subst hc
+          have h' : headIs isPySpace ('\n' :: (w2 ++ (unparseItems tl ++ after))) = false := by
+            simpa only [unparseItems, List.cons_append, List.append_assoc] using h
+          revert h'
+          show (isPySpace '\n' = false) → False
+          decide
+    subst hw0
+    simp only [unparseItems, List.append_assoc, List.nil_append] at hd
+    have h1 := reach_par (br := br) (stop := stop) (child := child) ctx htol hn hctx hkeys hpc hch hd hws hnl2 hh hl hhead
+    have := ReachesW.step (w := []) h1 rfl (fun st1 hp => items_reach ctx htol hk hctx hkeys tl m after htl md hn br stop child hx hch hsm
+      st1 [] rfl (by decide) (Or.inl rfl) (by rw [hp]; exact drop_add_of_drop hd))
+    simpa only [treeRaw, parShape, Option.getD_none, List.nil_append, List.singleton_append] using this
+  | .E name args body :: tl, m, after, hc, md, hn, br, stop, child, hx, hch, hsm, st, w, hw, hnl, _, hd => by
+    simp only [coreItems, Bool.and_eq_true, Bool.not_eq_eq_eq_not, Bool.not_true] at hc
+    obtain ⟨⟨⟨hne, hall⟩, hspec⟩, htl⟩ := hc
+    have hne' : name ≠ [] := by intro e; rw [e] at hne; cases hne
+    cases hes : ctx.envSpec name with
+    | none => rw [hes] at hspec; cases hspec
+    | some ab =>
+      obtain ⟨a, bm⟩ := ab
+      cases a with
+      | std sig =>
+        rw [hes] at hspec
+        simp only [Bool.and_eq_true] at hspec
+        obtain ⟨hargs, hbody⟩ := hspec
+        simp only [unparseItems, List.append_assoc] at hd
+        have hdA : env.s.drop (st.pos + w.length + (beginStr name).length) =
+            unparseArgs args ++ (unparseItems body ++ (endStr name ++ (unparseItems tl ++ after))) :=
+          drop_add_of_drop (drop_add_of_drop hd)
+        obtain ⟨al, pA, hAE, hpA, hdpA, hshape⟩ := args_reach ctx htol hk hctx hkeys sig args m _ hargs md hn []
+          (st.pos + w.length + (beginStr name).length) hdA
+        rw [List.nil_append] at hAE
+        have hbodyR := items_reach ctx htol hk hctx hkeys body (m || bm) (endStr name ++ (unparseItems tl ++ after)) hbody
+          (if bm then none else md) (normOk_envBody hn bm) none (.endEnv name) .same trivial (fun t _ => rfl)
+          (fun _ t ht => stop_endEnv_math _ t ht) { pos := pA } [] rfl (by decide) (Or.inl rfl) (by simpa using hdpA)
+        obtain ⟨p, hp, hdp, hr⟩ := step_env (br := br) (stop := stop) (child := child) htol hn hch hd hw hnl hne' hall
+          (by rw [hctx]; exact hes) hAE (by omega) hbodyR
+        rw [hshape] at hr
+        have := ReachesW.step hr rfl (fun st1 hp1 => items_reach ctx htol hk hctx hkeys tl m after htl md hn br stop child hx hch hsm
+          st1 [] rfl (by decide) (Or.inl rfl) (by
+            have e : st.pos + (p - st.pos) = p := by omega
+            rw [hp1, e]; exact hdp))
+        simpa only [treeRaw, List.singleton_append] using this
+      | legacyVerb => rw [hes] at hspec; cases hspec
+      | legacyVerbEnv _ _ => rw [hes] at hspec; cases hspec
+      | unknown => rw [hes] at hspec; cases hspec
+  | .S name args :: tl, m, after, hc, md, hn, br, stop, child, hx, hch, hsm, st, w, hw, hnl, _, hd => by
     simp only [coreItems, Bool.and_eq_true, beq_iff_eq] at hc
     obtain ⟨⟨⟨⟨hargs, hhead⟩, hts⟩, hspec⟩, htl⟩ := hc
     have hargs' : args = [] := List.isEmpty_iff.mp hargs
@@ -622,13 +972,43 @@ theorem items_reach (ctx : Ctx) (htol : env.tol = false) (hk : keysCore keys = t
       have hd' : env.s.drop st.pos = w ++ ((c :: name') ++ (unparseItems tl ++ after)) := by
         rw [hd]; simp only [unparseItems, unparseArgs, List.nil_append, List.append_assoc]
       rw [hkeys] at hts
-      have hr := step_specials (br := br) (stop := stop) (child := child) htol hn hch hd' hw hnl hc hts hspec'
-      have := ReachesW.step hr rfl (fun st1 hp => items_reach ctx htol hk hctx hkeys tl m after htl md hn br stop child hch hsm
+      have hr := step_specials (br := br) (stop := stop) (child := child) htol hn hx hch hd' hw hnl hc hts hspec'
+      have := ReachesW.step hr rfl (fun st1 hp => items_reach ctx htol hk hctx hkeys tl m after htl md hn br stop child hx hch hsm
         st1 [] rfl (by decide) (Or.inl rfl) (by
           rw [hp, ← Nat.add_assoc]; exact drop_add_of_drop (drop_add_of_drop hd')))
       simpa only [treeRaw, treeArgs, List.singleton_append] using this
-  | .V _ _ :: _, _, _, hc, _, _, _, _, _, _, _, _, _, _, _, _, _ => by simp [coreItems] at hc
-  | .VE _ _ _ _ :: _, _, _, hc, _, _, _, _, _, _, _, _, _, _, _, _, _ => by simp [coreItems] at hc
+  | .V d text :: tl, m, after, hc, md, hn, br, stop, child, hx, hch, hsm, st, w, hw, hnl, _, hd => by
+    simp only [coreItems, Bool.and_eq_true, Bool.not_eq_eq_eq_not, Bool.not_true] at hc
+    obtain ⟨⟨⟨⟨hspec, hda⟩, hds⟩, hnc⟩, htl⟩ := hc
+    have hms : env.ctx.macroSpec "verb".toList = some .legacyVerb := by
+      rw [hctx]
+      cases hh : ctx.macroSpec "verb".toList with
+      | none => rw [hh] at hspec; cases hspec
+      | some a =>
+        rw [hh] at hspec
+        cases a <;> first | rfl | cases hspec
+    have hd' : env.s.drop st.pos = w ++ ('\\' :: (('v' :: "erb".toList) ++ ([] ++ (d :: (text ++ d :: (unparseItems tl ++ after)))))) := by
+      rw [hd]; simp only [unparseItems, List.append_assoc, List.cons_append]; rfl
+    have hdq : env.s.drop (st.pos + w.length) = '\\' :: (('v' :: "erb".toList) ++ ([] ++ (d :: (text ++ d :: (unparseItems tl ++ after))))) :=
+      drop_add_of_drop hd'
+    have hps := psStd_std keys m md true br hn
+    have htok := peekAtChar_macro (pre := w) hps (stdExpect_cases m md) hdq (by decide) (by simp [headIs, hda]) rfl (by decide)
+      (by simp [headIs, hds]) (by decide) (by decide)
+    have hdA : env.s.drop (st.pos + w.length + 1 + ('v' :: "erb".toList).length + ([] : Str).length) = d :: (text ++ d :: (unparseItems tl ++ after)) :=
+      drop_add_of_drop (drop_add_of_drop (drop_succ_of_drop hdq))
+    have hargs := legacyVerb_runs (env := env) (stdF keys m md true) hdA hds hnc
+    have hr := step_macro (br := br) (stop := stop) (child := child) htol hch hd' hw hnl htok hms hargs (by omega)
+    have := ReachesW.step hr rfl (fun st1 hp1 => items_reach ctx htol hk hctx hkeys tl m after htl md hn br stop child hx hch hsm
+      st1 [] rfl (by decide) (Or.inl rfl) (by
+        have h1 := drop_succ_of_drop hdA
+        have h2 := drop_succ_of_drop (drop_add_of_drop h1)
+        rw [hp1, List.nil_append, ← h2]
+        congr 1
+        omega))
+    have e : ('v' :: "erb".toList) = "verb".toList := rfl
+    rw [e] at this
+    simpa only [treeRaw, List.singleton_append, shapeOfArgList, shapeOfArg, shapeOf] using this
+  | .VE _ _ _ _ :: _, _, _, hc, _, _, _, _, _, _, _, _, _, _, _, _, _, _ => by simp [coreItems] at hc
 termination_by a => sizeOf a
 decreasing_by
   all_goals first
@@ -650,7 +1030,7 @@ theorem args_reach (ctx : Ctx) (htol : env.tol = false) (hk : keysCore keys = tr
     obtain ⟨⟨⟨hkind, habs⟩, hfol⟩, hrest⟩ := hc
     simp only [unparseArgs] at hd
     obtain ⟨md', hK', hn'⟩ := applyDelta_std (keys := keys) m md sp.delta
-    have hpk := peek_follow_noerr (psStd_std keys m md true false hn) hd hfol
+    have hpk := peek_follow_noerr (psStd_std keys m md true none hn) hd hfol
     obtain ⟨al, pA, hAE, hpA, hdpA, hshape⟩ := args_reach ctx htol hk hctx hkeys sig tl m rest hrest md hn (acc ++ [Arg.absent]) pos hd
     refine ⟨.absent :: al, pA, ?_, hpA, hdpA, by simp only [shapeOfArgList, shapeOfArg, treeArgs, hshape]⟩
     have e : acc ++ Arg.absent :: al = acc ++ [Arg.absent] ++ al := by simp
@@ -660,16 +1040,25 @@ theorem args_reach (ctx : Ctx) (htol : env.tol = false) (hk : keysCore keys = tr
       rw [hkk] at habs
       refine argsEv_cons (res := .none) htol hpk ?_ hAE
       rw [hkk, hK']
-      exact group_absent_runs htol (hn' hn) ap hd hfol habs
+      refine xgroup_absent_runs htol (hn' hn) (o := '[') (c := ']') (by decide) ap hd hfol ?_
+      cases ap <;> simpa [absentOk, slotOpener] using habs
     | s =>
       rw [hkk] at habs
       refine argsEv_cons (res := .none) htol hpk ?_ hAE
       rw [hkk, hK']
-      exact marker_absent_runs htol (hn' hn) hd hfol habs
+      exact marker_absent_runs htol (hn' hn) '*' false hd hfol (by simpa [absentOk, slotOpener] using habs)
+    | t c =>
+      rw [hkk] at habs
+      refine argsEv_cons (res := .none) htol hpk ?_ hAE
+      rw [hkk, hK']
+      exact marker_absent_runs htol (hn' hn) c true hd hfol (by simpa [absentOk, slotOpener] using habs)
+    | d o c =>
+      rw [hkk] at habs hkind
+      refine argsEv_cons (res := .none) htol hpk ?_ hAE
+      rw [hkk, hK']
+      exact xgroup_absent_runs htol (hn' hn) (o := o) (c := c) hkind true hd hfol (by simpa [absentOk, slotOpener] using habs)
     | m => rw [hkk] at hkind; cases hkind
-    | t _ => rw [hkk] at hkind; cases hkind
     | r _ _ => rw [hkk] at hkind; cases hkind
-    | d _ _ => rw [hkk] at hkind; cases hkind
     | v => rw [hkk] at hkind; cases hkind
     | vd _ _ => rw [hkk] at hkind; cases hkind
   | sp :: sig, .star :: tl, m, rest, hc, md, hn, acc, pos, hd => by
@@ -678,7 +1067,7 @@ theorem args_reach (ctx : Ctx) (htol : env.tol = false) (hk : keysCore keys = tr
     have hkk := argKind_s_of_beq _ hkind
     simp only [unparseArgs, List.cons_append] at hd
     obtain ⟨md', hK', hn'⟩ := applyDelta_std (keys := keys) m md sp.delta
-    have hpk := peek_follow_noerr (psStd_std keys m md true false hn) hd (followOk_of_head (by decide) (by decide))
+    have hpk := peek_follow_noerr (psStd_std keys m md true none hn) hd (followOk_of_head (by decide) (by decide))
     obtain ⟨al, pA, hAE, hpA, hdpA, hshape⟩ := args_reach ctx htol hk hctx hkeys sig tl m rest hrest md hn
       (acc ++ [Arg.node (Node.chars pos (pos + 1) (psInfo (stdF keys (deltaMath m sp.delta) md' true)) ['*'])]) (pos + 1)
       (drop_succ_of_drop hd)
@@ -694,14 +1083,14 @@ theorem args_reach (ctx : Ctx) (htol : env.tol = false) (hk : keysCore keys = tr
     obtain ⟨⟨hkind, hb⟩, hrest⟩ := hc
     simp only [unparseArgs, List.cons_append, List.append_assoc] at hd
     obtain ⟨md', hK', hn'⟩ := applyDelta_std (keys := keys) m md sp.delta
-    have hpk := peek_follow_noerr (psStd_std keys m md true false hn) hd (followOk_of_head (by decide) (by decide))
+    have hpk := peek_follow_noerr (psStd_std keys m md true none hn) hd (followOk_of_head (by decide) (by decide))
     cases hkk : sp.kind with
     | o ap =>
       have hd1 : env.s.drop (pos + 1) = [] ++ (unparseItems b ++ ']' :: (unparseArgs tl ++ rest)) := drop_succ_of_drop hd
-      have hbody := items_reach ctx htol hk hctx hkeys b (deltaMath m sp.delta) (']' :: (unparseArgs tl ++ rest)) hb md' (hn' hn) true
-        (.braceClose [']']) (.group ['['] (stdF keys (deltaMath m sp.delta) md' true true) (stdF keys (deltaMath m sp.delta) md' true))
-        (fun t ht => child_br _ _ t ht) (fun _ t ht => stop_brace_math _ t ht) { pos := pos + 1 } [] rfl (by decide) (Or.inl rfl) hd1
-      obtain ⟨p, nd, hqp, hdp, hgrp, hsh⟩ := brgroup_node htol (hn' hn) ap hd hbody
+      have hbody := items_reach ctx htol hk hctx hkeys b (deltaMath m sp.delta) (']' :: (unparseArgs tl ++ rest)) hb md' (hn' hn) xbr
+        (.braceClose [']']) (.group ['['] (stdF keys (deltaMath m sp.delta) md' true xbr) (stdF keys (deltaMath m sp.delta) md' true))
+        xpOk_br (fun t ht => child_br '[' _ _ t (by decide) ht) (fun _ t ht => stop_brace_math _ t ht) { pos := pos + 1 } [] rfl (by decide) (Or.inl rfl) hd1
+      obtain ⟨p, nd, hqp, hdp, hgrp, hsh⟩ := xgroup_node htol (hn' hn) xpOk_br true ap hd hbody
       obtain ⟨al, pA, hAE, hpA, hdpA, hshape⟩ := args_reach ctx htol hk hctx hkeys sig tl m rest hrest md hn (acc ++ [Arg.node nd]) p hdp
       refine ⟨Arg.node nd :: al, pA, ?_, by omega, hdpA, by simp only [shapeOfArgList, shapeOfArg, treeArgs, hshape, hsh]⟩
       have e : acc ++ Arg.node nd :: al = acc ++ [Arg.node nd] ++ al := by simp
@@ -722,11 +1111,11 @@ theorem args_reach (ctx : Ctx) (htol : env.tol = false) (hk : keysCore keys = tr
     have hkk := argKind_m_of_beq _ hkind
     simp only [unparseArgs, List.cons_append, List.append_assoc] at hd
     obtain ⟨md', hK', hn'⟩ := applyDelta_std (keys := keys) m md sp.delta
-    have hpk := peek_follow_noerr (psStd_std keys m md true false hn) hd (followOk_of_head (by decide) (by decide))
+    have hpk := peek_follow_noerr (psStd_std keys m md true none hn) hd (followOk_of_head (by decide) (by decide))
     have hd1 : env.s.drop (pos + 1) = [] ++ (unparseItems b ++ '}' :: (unparseArgs tl ++ rest)) := drop_succ_of_drop hd
-    have hbody := items_reach ctx htol hk hctx hkeys b (deltaMath m sp.delta) ('}' :: (unparseArgs tl ++ rest)) hb md' (hn' hn) false
+    have hbody := items_reach ctx htol hk hctx hkeys b (deltaMath m sp.delta) ('}' :: (unparseArgs tl ++ rest)) hb md' (hn' hn) none
       (.braceClose ['}']) (.group ['{'] (stdF keys (deltaMath m sp.delta) md' true) (stdF keys (deltaMath m sp.delta) md' true))
-      (fun t _ => child_group _ _ t) (fun _ t ht => stop_brace_math _ t ht) { pos := pos + 1 } [] rfl (by decide) (Or.inl rfl) hd1
+      trivial (fun t _ => child_group _ _ t) (fun _ t ht => stop_brace_math _ t ht) { pos := pos + 1 } [] rfl (by decide) (Or.inl rfl) hd1
     obtain ⟨p, nd, hqp, hdp, hgrp, hsh⟩ := group_node htol (hn' hn) hd hbody
     obtain ⟨al, pA, hAE, hpA, hdpA, hshape⟩ := args_reach ctx htol hk hctx hkeys sig tl m rest hrest md hn (acc ++ [Arg.node nd]) p hdp
     refine ⟨Arg.node nd :: al, pA, ?_, by omega, hdpA, by simp only [shapeOfArgList, shapeOfArg, treeArgs, hshape, hsh]⟩
@@ -737,9 +1126,74 @@ theorem args_reach (ctx : Ctx) (htol : env.tol = false) (hk : keysCore keys = tr
     exact expr_runs htol (hn' hn) hd hgrp
   | [], _ :: _, _, _, hc, _, _, _, _, _ => by simp [coreArgs] at hc
   | _ :: _, [], _, _, hc, _, _, _, _, _ => by simp [coreArgs] at hc
-  | _ :: _, .marker _ :: _, _, _, hc, _, _, _, _, _ => by simp [coreArgs] at hc
-  | _ :: _, .tok _ :: _, _, _, hc, _, _, _, _, _ => by simp [coreArgs] at hc
-  | _ :: _, .del _ _ _ :: _, _, _, hc, _, _, _, _, _ => by simp [coreArgs] at hc
+  | sp :: sig, .marker c :: tl, m, rest, hc, md, hn, acc, pos, hd => by
+    simp only [coreArgs, Bool.and_eq_true] at hc
+    obtain ⟨⟨hkind, hmk⟩, hrest⟩ := hc
+    have hkk : sp.kind = .t c := argKind_t_of_beq _ _ hkind
+    simp only [unparseArgs, List.cons_append] at hd
+    rw [hkeys] at hmk
+    obtain ⟨md', hK', hn'⟩ := applyDelta_std (keys := keys) m md sp.delta
+    have hmk' := hmk
+    unfold markerOk at hmk'
+    simp only [Bool.and_eq_true, Bool.not_eq_eq_eq_not, Bool.not_true, bne_iff_ne, ne_eq] at hmk'
+    have hpk := peek_follow_noerr (psStd_std keys m md true none hn) hd (followOk_of_head hmk'.1.1.1.1.1.1 hmk'.1.1.1.1.1.2)
+    obtain ⟨al, pA, hAE, hpA, hdpA, hshape⟩ := args_reach ctx htol hk hctx hkeys sig tl m rest hrest md hn
+      (acc ++ [Arg.list (some pos) (some (pos + 1)) [Node.chars pos (pos + 1) (psInfo (stdF keys (deltaMath m sp.delta) md' true)) [c]]]) (pos + 1)
+      (drop_succ_of_drop hd)
+    refine ⟨Arg.list (some pos) (some (pos + 1)) [Node.chars pos (pos + 1) (psInfo (stdF keys (deltaMath m sp.delta) md' true)) [c]] :: al, pA, ?_, by omega, hdpA,
+      by simp only [shapeOfArgList, shapeOfArg, shapeOfNodes, shapeOf, treeArgs, hshape]⟩
+    have e : ∀ x : Arg, acc ++ x :: al = acc ++ [x] ++ al := by intro x; simp
+    rw [e]
+    refine argsEv_cons (res := .list (some pos) (some (pos + 1)) [Node.chars pos (pos + 1) (psInfo (stdF keys (deltaMath m sp.delta) md' true)) [c]]) htol hpk ?_ hAE
+    rw [hkk, hK']
+    exact marker_runs htol (hn' hn) true hd hmk
+  | sp :: sig, .tok c :: tl, m, rest, hc, md, hn, acc, pos, hd => by
+    simp only [coreArgs, Bool.and_eq_true] at hc
+    obtain ⟨⟨hkind, hc1⟩, hrest⟩ := hc
+    have hkk := argKind_m_of_beq _ hkind
+    simp only [unparseArgs, List.cons_append] at hd
+    obtain ⟨md', hK', hn'⟩ := applyDelta_std (keys := keys) m md sp.delta
+    have hcne := textChar_ne hc1
+    have hpk := peek_follow_noerr (psStd_std keys m md true none hn) hd (followOk_of_head hcne.2.2.2.2.2 hcne.2.1)
+    obtain ⟨al, pA, hAE, hpA, hdpA, hshape⟩ := args_reach ctx htol hk hctx hkeys sig tl m rest hrest md hn
+      (acc ++ [Arg.node (Node.chars pos (pos + 1) (psInfo (stdF keys (deltaMath m sp.delta) md' true)) [c])]) (pos + 1)
+      (drop_succ_of_drop hd)
+    refine ⟨Arg.node (Node.chars pos (pos + 1) (psInfo (stdF keys (deltaMath m sp.delta) md' true)) [c]) :: al, pA, ?_, by omega, hdpA,
+      by simp only [shapeOfArgList, shapeOfArg, shapeOf, treeArgs, hshape]⟩
+    have e : ∀ x : Arg, acc ++ x :: al = acc ++ [x] ++ al := by intro x; simp
+    rw [e]
+    refine argsEv_cons (res := .node _) htol hpk ?_ hAE
+    rw [hkk, hK']
+    exact expr_tok_runs htol (hn' hn) hk hd hc1
+  | sp :: sig, .del o c b :: tl, m, rest, hc, md, hn, acc, pos, hd => by
+    simp only [coreArgs, Bool.and_eq_true, Bool.or_eq_true, bne_iff_ne, ne_eq] at hc
+    obtain ⟨⟨⟨⟨⟨hkind, hxo⟩, hxc⟩, hoc⟩, hb⟩, hrest⟩ := hc
+    have hx : XpOk (some (o, c)) := ⟨hxo, hxc, hoc⟩
+    have hone := xdelim_ne hxo
+    simp only [unparseArgs, List.cons_append, List.append_assoc] at hd
+    obtain ⟨md', hK', hn'⟩ := applyDelta_std (keys := keys) m md sp.delta
+    have hpk := peek_follow_noerr (psStd_std keys m md true none hn) hd (followOk_of_head hone.2.2.2.2.2 hone.2.1)
+    have hd1 : env.s.drop (pos + 1) = [] ++ (unparseItems b ++ c :: (unparseArgs tl ++ rest)) := drop_succ_of_drop hd
+    have hbody := items_reach ctx htol hk hctx hkeys b (deltaMath m sp.delta) (c :: (unparseArgs tl ++ rest)) hb md' (hn' hn) (some (o, c))
+      (.braceClose [c]) (.group [o] (stdF keys (deltaMath m sp.delta) md' true (some (o, c))) (stdF keys (deltaMath m sp.delta) md' true))
+      hx (fun t ht => child_br o _ _ t hone.2.2.2.1 ht) (fun _ t ht => stop_brace_math _ t ht) { pos := pos + 1 } [] rfl (by decide) (Or.inl rfl) hd1
+    have hopt : ∃ opt, argParser sp.kind = .group (.pair [o] [c]) opt true := by
+      rcases hkind with h | h
+      · refine ⟨false, ?_⟩
+        have : sp.kind = .r o c := argKind_r_of_beq _ _ _ h
+        rw [this]; rfl
+      · refine ⟨true, ?_⟩
+        have : sp.kind = .d o c := argKind_d_of_beq _ _ _ h
+        rw [this]; rfl
+    obtain ⟨opt, hopt⟩ := hopt
+    obtain ⟨p, nd, hqp, hdp, hgrp, hsh⟩ := xgroup_node htol (hn' hn) hx opt true hd hbody
+    obtain ⟨al, pA, hAE, hpA, hdpA, hshape⟩ := args_reach ctx htol hk hctx hkeys sig tl m rest hrest md hn (acc ++ [Arg.node nd]) p hdp
+    refine ⟨Arg.node nd :: al, pA, ?_, by omega, hdpA, by simp only [shapeOfArgList, shapeOfArg, treeArgs, hshape, hsh]⟩
+    have e : acc ++ Arg.node nd :: al = acc ++ [Arg.node nd] ++ al := by simp
+    rw [e]
+    refine argsEv_cons (res := .node nd) htol hpk ?_ hAE
+    rw [hopt, hK']
+    exact hgrp
   | _ :: _, .verb _ _ _ :: _, _, _, hc, _, _, _, _, _ => by simp [coreArgs] at hc
 termination_by _ args => sizeOf args
 end
@@ -760,17 +1214,12 @@ def cexCtx : Ctx := { macros := [(['a'], .std [])] }
 /-- counterexample document `\a x`, written as the macro (no post-space), a whitespace item, a text item -/
 def cexDoc : List Item := [.M ['a'] [] [], .W [' '], .T ['x']]
 
-/-- **`C02_full` is false as stated**: `Doc.WF` admits a control word without post-space followed by a whitespace item
-    (`wfItems` only asks that no letter follows when `post` is empty), but the tokenizer makes that whitespace the
-    macro's post-space, so the parse is `\a`, `x` while `treeOf` says `\a`, ` x`.  (The generator never writes such a
-    derivation: its `fixup` moves the whitespace into `post`.  `Core` excludes it: `!headIs isPySpace written`.) -/
-theorem C02_full_false : ¬ C02_full := by
-  intro h
-  have h1 := h cexCtx cexDoc (by decide +kernel)
-  have h2 : (shapeTop (parseStrict cexCtx (unparse cexDoc))).map showShapeList = some (showShapeList (treeOf cexCtx cexDoc)) := by
-    rw [h1]; rfl
-  revert h2
-  decide +kernel
+/-- the repaired `Doc.WF` excludes it: a control word without written argument and with an empty `post` must not be
+    followed by a whitespace item (the generator folds that whitespace into `post`) -/
+example : WF cexCtx cexDoc = false := by decide +kernel
+
+/-- written with the blank as the macro's post-space it is well formed -/
+example : WF cexCtx [.M ['a'] [' '] [], .T ['x']] = true := by decide +kernel
 
 theorem startFields_std (ctx : Ctx) : startFields ctx = stdF (ctxKeys ctx) false none true := rfl
 
@@ -789,7 +1238,7 @@ theorem core_ev (ctx : Ctx) (d : List Item) (h : Core ctx d = true) :
   obtain ⟨hk, hc⟩ := h
   obtain ⟨tr, n, w', ⟨st', hp, hs, hkk⟩, hdrop, hw', hn', hm⟩ :=
     items_reach (env := { tol := false, ctx := ctx, s := unparse d }) ctx rfl hk rfl rfl d false [] hc none (fun _ => rfl)
-      false .none .same (fun t _ => rfl) (fun _ t _ => rfl) { pos := 0 } [] rfl (by decide) (Or.inl rfl)
+      none .none .same trivial (fun t _ => rfl) (fun _ t _ => rfl) { pos := 0 } [] rfl (by decide) (Or.inl rfl)
       (by simp [unparse])
   have hd' : (unparse d).drop st'.pos = w' := by
     rw [hp]; simpa using hdrop
@@ -877,6 +1326,95 @@ def exDocS : List Item :=
   [.T ['a'], .S ['~'] [], .T ['b'], .W [' '], .S ['-', '-', '-'] [], .W [' '], .T ['c'],
    .F .dollar [.T ['x'], .S ['~'] [], .T ['y']],
    .M "emph".toList [] [.grp [.S ['`', '`'] [], .T ['q'], .S ['\'', '\''] []]]]
+
+/-- paragraph breaks: at top level, behind a control word (no post-space then), behind a comment line (whose newline the
+    break swallows), inside a group -/
+def exDocP : List Item :=
+  [.T ['a'], .P ['\n', '\n'], .T ['b'], .W [' '], .M "alpha".toList [] [], .P ['\n', ' ', '\n'], .T ['c'], .C ['x'] ['\n', ' '],
+   .P ['\n', '\n', '\n'], .G [.T ['d'], .P ['\n', '\n']]]
+
+/-- a context without the paragraph specials (and with an unknown-macro fallback): a break is plain text there -/
+def exCtxNoPar : Ctx := { unknownMacro := some (.std []) }
+
+/-- single-token arguments: `\frac a{b}\frac12 \sqrt[x]y` -/
+def exDocTok : List Item :=
+  [.M "frac".toList [' '] [.tok 'a', .grp [.T ['b']]], .M "frac".toList [] [.tok '1', .tok '2'], .W [' '],
+   .M "sqrt".toList [] [.br [.T ['x']], .tok 'y']]
+
+/-- environments: an absent optional argument, a math body, arguments, an unknown environment (fallback of the default
+    context), nesting -/
+def exDocE : List Item :=
+  [.E "itemize".toList [.absent] [.M "item".toList [' '] [.absent], .T ['a'], .W ['\n']], .W [' '],
+   .E "equation".toList [] [.T ['x'], .S ['~'] [], .M "mbox".toList [] [.grp [.F .dollar [.T ['y']]]]],
+   .E "array".toList [.br [.T ['t']], .grp [.T ['c']]] [.T ['y'], .S ['&'] [], .T ['z']],
+   .E "foo".toList [] [.E "center".toList [] [.T ['z']]]]
+
+/-- a context with delimited (`r`, `d`) and marker (`t`) arguments — the default context has none -/
+def exCtxD : Ctx :=
+  { macros := [(['r'], .std [⟨.r '(' ')', .none⟩]), (['d'], .std [⟨.d '<' '>', .none⟩, ⟨.m, .none⟩]), (['t'], .std [⟨.t '+', .none⟩]),
+               (['e'], .std [⟨.m, .enterMath⟩])],
+    specials := [(['~'], .std [])] }
+
+/-- `\r(a{b} ~\e{x})\d<x>{y}\d{z}\t+\t q` + paragraph break + `p` -/
+def exDocD : List Item :=
+  [.M ['r'] [] [.del '(' ')' [.T ['a'], .G [.T ['b']], .W [' '], .S ['~'] [], .M ['e'] [] [.grp [.T ['x']]]]],
+   .M ['d'] [] [.del '<' '>' [.T ['x']], .grp [.T ['y']]], .M ['d'] [] [.absent, .grp [.T ['z']]],
+   .M ['t'] [] [.marker '+'], .M ['t'] [' '] [.absent], .T ['q'], .P ['\n', '\n'], .T ['p']]
+
+/-- `\verb`: `a \verb|b{$ %\|x{\verb!!}` -/
+def exDocV : List Item :=
+  [.T ['a'], .W [' '], .V '|' "b{$ %\\".toList, .T ['x'], .G [.V '!' []]]
+
+/-- control symbols: `a\\*[x] b\,c\%` -/
+def exDocSym : List Item :=
+  [.T ['a'], .M ['\\'] [] [.star, .br [.T ['x']]], .W [' '], .T ['b'], .M [','] [] [], .T ['c'], .M ['%'] [] []]
+
+theorem exDocSym_core : Core Gen.defaultCtx exDocSym = true := by decide +kernel
+example : shapeTop (parseStrict Gen.defaultCtx (unparse exDocSym)) = some (treeOf Gen.defaultCtx exDocSym) := C02_core _ _ exDocSym_core
+example : unparse exDocSym = "a\\\\*[x] b\\,c\\%".toList := by decide +kernel
+
+theorem exDocP_core : Core Gen.defaultCtx exDocP = true := by decide +kernel
+theorem exDocP_core' : Core exCtxNoPar exDocP = true := by decide +kernel
+theorem exDocTok_core : Core Gen.defaultCtx exDocTok = true := by decide +kernel
+theorem exDocE_core : Core Gen.defaultCtx exDocE = true := by decide +kernel
+theorem exDocD_core : Core exCtxD exDocD = true := by decide +kernel
+theorem exDocV_core : Core Gen.defaultCtx exDocV = true := by decide +kernel
+
+example : shapeTop (parseStrict Gen.defaultCtx (unparse exDocP)) = some (treeOf Gen.defaultCtx exDocP) := C02_core _ _ exDocP_core
+example : shapeTop (parseStrict exCtxNoPar (unparse exDocP)) = some (treeOf exCtxNoPar exDocP) := C02_core _ _ exDocP_core'
+example : shapeTop (parseStrict Gen.defaultCtx (unparse exDocTok)) = some (treeOf Gen.defaultCtx exDocTok) := C02_core _ _ exDocTok_core
+example : shapeTop (parseStrict Gen.defaultCtx (unparse exDocE)) = some (treeOf Gen.defaultCtx exDocE) := C02_core _ _ exDocE_core
+example : shapeTop (parseStrict exCtxD (unparse exDocD)) = some (treeOf exCtxD exDocD) := C02_core _ _ exDocD_core
+example : shapeTop (parseStrict Gen.defaultCtx (unparse exDocV)) = some (treeOf Gen.defaultCtx exDocV) := C02_core _ _ exDocV_core
+
+example : unparse exDocP = "a\n\nb \\alpha\n \nc%x\n \n\n\n{d\n\n}".toList := by decide +kernel
+example : unparse exDocTok = "\\frac a{b}\\frac12 \\sqrt[x]y".toList := by decide +kernel
+example : unparse exDocE =
+    "\\begin{itemize}\\item a\n\\end{itemize} \\begin{equation}x~\\mbox{$y$}\\end{equation}\\begin{array}[t]{c}y&z\\end{array}\\begin{foo}\\begin{center}z\\end{center}\\end{foo}".toList := by
+  decide +kernel
+example : unparse exDocD = "\\r(a{b} ~\\e{x})\\d<x>{y}\\d{z}\\t+\\t q\n\np".toList := by decide +kernel
+example : unparse exDocV = "a \\verb|b{$ %\\|x{\\verb!!}".toList := by decide +kernel
+
+/-- the expected structures (canonical text of `treeOf`): the paragraph specials under the default context … -/
+example : showShapeList (treeOf Gen.defaultCtx exDocP) =
+    "(c \"a\") (s \"%a;%a;\" <>) (c \"b%20;\") (m \"alpha\" <>) (s \"%a;%a;\" <>) (c \"c\") (% \"x\") (s \"%a;%a;\" <>) (g \"{\" \"}\" [(c \"d\") (s \"%a;%a;\" <>)])" := by
+  decide +kernel
+/-- … and plain text without them (the break behind the comment holds the comment's newline and indentation) -/
+example : showShapeList (treeOf exCtxNoPar exDocP) =
+    "(c \"a%a;%a;b%20;\") (m \"alpha\" <>) (c \"%a;%20;%a;c\") (% \"x\") (g \"{\" \"}\" [(c \"d%a;%a;\")])" := by
+  decide +kernel
+example : showShapeList (treeOf Gen.defaultCtx exDocTok) =
+    "(m \"frac\" <(c \"a\") (g \"{\" \"}\" [(c \"b\")])>) (m \"frac\" <(c \"1\") (c \"2\")>) (m \"sqrt\" <(g \"[\" \"]\" [(c \"x\")]) (c \"y\")>)" := by
+  decide +kernel
+example : showShapeList (treeOf Gen.defaultCtx exDocE) =
+    "(e \"itemize\" <-> [(m \"item\" <->) (c \"a%a;\")]) (e \"equation\" <> [(c \"x\") (s \"~\" <>) (m \"mbox\" <(g \"{\" \"}\" [(f I \"$\" \"$\" [(c \"y\")])])>)]) (e \"array\" <(g \"[\" \"]\" [(c \"t\")]) (g \"{\" \"}\" [(c \"c\")])> [(c \"y\") (s \"&\" <>) (c \"z\")]) (e \"foo\" <> [(e \"center\" <> [(c \"z\")])])" := by
+  decide +kernel
+example : showShapeList (treeOf exCtxD exDocD) =
+    "(m \"r\" <(g \"(\" \")\" [(c \"a\") (g \"{\" \"}\" [(c \"b\")]) (s \"~\" <>) (m \"e\" <(g \"{\" \"}\" [(c \"x\")])>)])>) (m \"d\" <(g \"<\" \">\" [(c \"x\")]) (g \"{\" \"}\" [(c \"y\")])>) (m \"d\" <- (g \"{\" \"}\" [(c \"z\")])>) (m \"t\" <(L [(c \"+\")])>) (m \"t\" <->) (c \"q%a;%a;p\")" := by
+  decide +kernel
+example : showShapeList (treeOf Gen.defaultCtx exDocV) =
+    "(c \"a%20;\") (m \"verb\" <(c \"b{$%20;%25;\\\")>) (c \"x\") (g \"{\" \"}\" [(m \"verb\" <(c \"\")>)])" := by
+  decide +kernel
 
 theorem exDoc_core : Core Gen.defaultCtx exDoc = true := by decide +kernel
 theorem exDocS_core : Core Gen.defaultCtx exDocS = true := by decide +kernel
